@@ -1,5 +1,5 @@
 (** C14 — lemmas about the taxonomy model. *)
-From Coq Require Import NArith ZArith List Bool Lia FMapPositive Permutation.
+From Coq Require Import NArith ZArith List Bool Lia FMapPositive Permutation Floats.SpecFloat.
 Import ListNotations.
 From OBI.C14 Require Import Model.
 Open Scope N_scope.
@@ -746,6 +746,340 @@ Proof.
 Qed.
 Close Scope Z_scope.
 
+
+(** ** The descent for any threshold (round 2) *)
+Open Scope Z_scope.
+
+Lemma hw_pos_head : forall h ts, 0 < head_weight h ts -> exists e r, In e ts /\ fst e = h :: r.
+Proof.
+  intros h ts; induction ts as [|e ts IH]; intros H; [simpl in H; lia|].
+  rewrite hw_cons in H. destruct (fst e) as [|h' r] eqn:Fe.
+  - destruct (IH H) as [e' [r' [Hi Hf]]]. exists e', r'; split; [right|]; auto.
+  - destruct (h' =? h)%N eqn:E.
+    + apply N.eqb_eq in E; subst. exists e, r; split; [left|]; auto.
+    + destruct (IH H) as [e' [r' [Hi Hf]]]. exists e', r'; split; [right|]; auto.
+Qed.
+
+Lemma heads_In : forall ts h, In h (heads ts) <-> exists e r, In e ts /\ fst e = h :: r.
+Proof.
+  induction ts as [|[p w] ts IH]; intros h; simpl.
+  - split; [intros []|intros [e [r [[] _]]]].
+  - destruct p as [|h' r'].
+    + rewrite IH. split.
+      * intros [e [r [Hi Hf]]]. exists e, r; auto.
+      * intros [e [r [[<-|Hi] Hf]]]; [discriminate|eauto].
+    + assert (K : In h (if mem h' (heads ts) then heads ts else h' :: heads ts) <-> h = h' \/ In h (heads ts)).
+      { destruct (mem h' (heads ts)) eqn:M; simpl.
+        - apply mem_In in M. split; [auto|intros [->|]; auto].
+        - split; intros [E|Hi]; auto. }
+      rewrite K, IH. split.
+      * intros [->|[e [r [Hi Hf]]]]; [exists (h' :: r', w), r'; auto|exists e, r; auto].
+      * intros [e [r [[<-|Hi] Hf]]]; [left; simpl in Hf; congruence|right; eauto].
+Qed.
+
+Lemma heads_NoDup : forall ts, NoDup (heads ts).
+Proof.
+  induction ts as [|[p w] ts IH]; simpl; [constructor|]. destruct p as [|h r]; auto.
+  destruct (mem h (heads ts)) eqn:M; auto. constructor; auto. intros Hi. apply mem_In in Hi. congruence.
+Qed.
+
+(** weighMax is THE maximum of the level table (0 if nothing is positive); taxonMax is one of the keys that reach it *)
+Definition is_maxw (ts : list wt) (w : Z) : Prop :=
+  0 <= w /\ (forall e h r, In e ts -> fst e = h :: r -> head_weight h ts <= w) /\
+  (w = 0 \/ exists h, In h (heads ts) /\ w = head_weight h ts).
+
+Lemma maxw_is : forall ts, is_maxw ts (maxw ts) /\
+  match pick ts with None => maxw ts = 0 | Some h => In h (heads ts) /\ head_weight h ts = maxw ts /\ 0 < maxw ts end.
+Proof.
+  intros ts. unfold maxw, pick. destruct (argmax ts ts 0 None) as [w o] eqn:Ea; simpl.
+  destruct (argmax_spec _ _ _ _ _ _ Ea) as [A1 [A2 A3]].
+  destruct A3 as [[-> ->]|[h [-> [-> L]]]].
+  - split; [|reflexivity]. split; [lia|]. split; auto.
+  - assert (Hh : In h (heads ts)) by (apply heads_In; apply hw_pos_head; auto).
+    split; [|auto]. split; [lia|]. split; auto. right. exists h; auto.
+Qed.
+
+Lemma is_maxw_unique : forall ts w1 w2, is_maxw ts w1 -> is_maxw ts w2 -> w1 = w2.
+Proof.
+  assert (Le : forall ts w1 w2, is_maxw ts w1 -> is_maxw ts w2 -> w1 <= w2).
+  { intros ts w1 w2 [P1 [U1 [->|[h [Hh ->]]]]] [P2 [U2 _]]; [lia|].
+    apply heads_In in Hh. destruct Hh as [e [r [Hi Hf]]]. eapply U2; eauto. }
+  intros ts w1 w2 H1 H2. pose proof (Le _ _ _ H1 H2). pose proof (Le _ _ _ H2 H1). lia.
+Qed.
+
+Lemma pick_in_cands : forall ts, In (pick ts) (cands ts).
+Proof.
+  intros ts. destruct (maxw_is ts) as [_ P]. unfold cands. destruct (pick ts) as [h|].
+  - destruct P as [Hh [Hw L]]. apply Z.ltb_lt in L. rewrite L. apply in_map. apply filter_In. split; auto. apply Z.eqb_eq; auto.
+  - rewrite P. simpl. auto.
+Qed.
+
+Lemma in_cands : forall ts tm, In tm (cands ts) <->
+  match tm with None => maxw ts <= 0 | Some h => 0 < maxw ts /\ In h (heads ts) /\ head_weight h ts = maxw ts end.
+Proof.
+  intros ts tm. unfold cands. destruct (0 <? maxw ts) eqn:L.
+  - apply Z.ltb_lt in L. rewrite in_map_iff. destruct tm as [h|].
+    + split.
+      * intros [h' [E Hi]]. inversion E; subst. apply filter_In in Hi. destruct Hi as [Hi Hw]. apply Z.eqb_eq in Hw. auto.
+      * intros [_ [Hi Hw]]. exists h. split; auto. apply filter_In. split; auto. apply Z.eqb_eq; auto.
+    + split; [intros [h' [E _]]; discriminate|lia].
+  - apply Z.ltb_ge in L. simpl. destruct tm as [h|]; split.
+    + intros [E|[]]; discriminate.
+    + lia.
+    + intros _; exact L.
+    + intros _; left; reflexivity.
+Qed.
+
+(** folding the outcomes of the candidates *)
+Lemma fold_ocat : forall (A B : Type) (F : A -> option (list B)) cs,
+  match fold_right (fun tm acc => ocat (F tm) acc) (Some []) cs with
+  | Some l => (forall tm, In tm cs -> exists l', F tm = Some l') /\
+              (forall x, In x l <-> exists tm l', In tm cs /\ F tm = Some l' /\ In x l')
+  | None => exists tm, In tm cs /\ F tm = None
+  end.
+Proof.
+  intros A B F cs; induction cs as [|c cs IH]; simpl.
+  - split; [intros tm []|]. intros x; split; [intros []|intros [tm [l' [[] _]]]].
+  - destruct (fold_right _ _ cs) as [l|].
+    + destruct IH as [I1 I2]. destruct (F c) as [lc|] eqn:Fc; simpl.
+      * split.
+        -- intros tm [<-|Hi]; eauto.
+        -- intros x. rewrite in_app_iff, I2. split.
+           ++ intros [Hx|[tm [l' [Hi [Ft Hx]]]]]; [exists c, lc; auto|exists tm, l'; auto].
+           ++ intros [tm [l' [[<-|Hi] [Ft Hx]]]]; [left; congruence|right; eauto].
+      * exists c; auto.
+    + destruct IH as [tm [Hi Ft]]. destruct (F c); simpl; exists tm; auto.
+Qed.
+
+Section Descent.
+Variable R : Type.
+Variable sc : score R.
+
+(** (1) the run that takes the first maximum in list order is one of the possible runs *)
+Lemma wld_in_all : forall fuel ts r tmax l, wld_all sc fuel ts r tmax = Some l ->
+  exists x, wld sc fuel ts r tmax = Some x /\ In x l.
+Proof.
+  induction fuel as [|f IH]; intros ts r tmax l H; simpl in *; [discriminate|].
+  destruct (s_ge sc (next_r sc ts r)).
+  - pose proof (fold_ocat _ _ (fun tm => wld_all sc f (next_ts ts tm) (next_r sc ts r) tm) (cands ts)) as FO.
+    simpl in FO. rewrite H in FO. destruct FO as [F1 F2].
+    destruct (F1 _ (pick_in_cands ts)) as [l' Hl']. destruct (IH _ _ _ _ Hl') as [x [Hx Hin]].
+    exists x. split; auto. apply F2. exists (pick ts), l'. split; [apply pick_in_cands|auto].
+  - inversion H; subst. exists (tmax, r); simpl; auto.
+Qed.
+
+(** (2) when no level whose share passes the threshold has two maximal children, there is ONE possible outcome *)
+Lemma notie_single : forall fuel ts r tmax, notie sc fuel ts r = true ->
+  wld_all sc fuel ts r tmax = option_map (fun x => [x]) (wld sc fuel ts r tmax).
+Proof.
+  induction fuel as [|f IH]; intros ts r tmax H; simpl in *; [reflexivity|].
+  destruct (s_ge sc (next_r sc ts r)); [|reflexivity].
+  pose proof (pick_in_cands ts) as P.
+  destruct (cands ts) as [|tm [|tm' cs]]; try discriminate.
+  destruct P as [<-|[]]. simpl. rewrite (IH _ _ _ H).
+  destruct (wld sc f (next_ts ts tm) (next_r sc ts r) tm); reflexivity.
+Qed.
+
+(** (3) a threshold that every score passes (threshold <= 0): the loop never exits *)
+Lemma wld_diverges : (forall r, s_ge sc r = true) -> forall fuel ts r tmax, wld sc fuel ts r tmax = None.
+Proof.
+  intros G; induction fuel as [|f IH]; intros ts r tmax; simpl; [reflexivity|]. rewrite G. apply IH.
+Qed.
+End Descent.
+
+(** *** Independence of the iteration order *)
+Lemma total_perm : forall ts ts', Permutation ts ts' -> total ts = total ts'.
+Proof. intros ts ts' P; induction P; simpl; try lia. Qed.
+
+Lemma hw_perm : forall h ts ts', Permutation ts ts' -> head_weight h ts = head_weight h ts'.
+Proof.
+  intros h ts ts' P; induction P; try lia; rewrite ?hw_cons.
+  - rewrite IHP. reflexivity.
+  - destruct (fst x) as [|a ?]; destruct (fst y) as [|b ?]; try reflexivity; destruct (a =? h)%N; destruct (b =? h)%N; lia.
+Qed.
+
+Lemma heads_perm : forall ts ts' h, Permutation ts ts' -> (In h (heads ts) <-> In h (heads ts')).
+Proof.
+  intros ts ts' h P. rewrite !heads_In. split; intros [e [r [Hi Hf]]]; exists e, r; split; auto.
+  - eapply Permutation_in; eauto.
+  - eapply Permutation_in; [apply Permutation_sym|]; eauto.
+Qed.
+
+Lemma maxw_perm : forall ts ts', Permutation ts ts' -> maxw ts = maxw ts'.
+Proof.
+  intros ts ts' P. apply (is_maxw_unique ts'); [|apply maxw_is].
+  destruct (maxw_is ts) as [[M1 [M2 M3]] _]. split; [auto|]. split.
+  - intros e h r Hi Hf. rewrite <- (hw_perm h _ _ P). eapply M2; eauto. eapply Permutation_in; [apply Permutation_sym|]; eauto.
+  - destruct M3 as [M3|[h [Hh Hw]]]; [left; auto|right]. exists h. split; [apply (heads_perm _ _ h P); auto|]. rewrite <- (hw_perm h _ _ P). auto.
+Qed.
+
+Lemma cands_perm : forall ts ts' tm, Permutation ts ts' -> (In tm (cands ts) <-> In tm (cands ts')).
+Proof.
+  intros ts ts' tm P. rewrite !in_cands. rewrite (maxw_perm _ _ P). destruct tm as [h|]; [|tauto].
+  rewrite (heads_perm _ _ h P), (hw_perm h _ _ P). tauto.
+Qed.
+
+Lemma filter_perm : forall (A : Type) (f : A -> bool) l l', Permutation l l' -> Permutation (filter f l) (filter f l').
+Proof.
+  intros A f l l' P; induction P; simpl; auto.
+  - destruct (f x); auto.
+  - destruct (f x), (f y); auto. apply perm_swap.
+  - eapply perm_trans; eauto.
+Qed.
+
+Lemma next_ts_perm : forall ts ts' tm, Permutation ts ts' -> Permutation (next_ts ts tm) (next_ts ts' tm).
+Proof. intros ts ts' tm P. unfold next_ts. apply Permutation_map. apply filter_perm. exact P. Qed.
+
+Lemma next_r_perm : forall R (sc : score R) ts ts' r, Permutation ts ts' -> next_r sc ts r = next_r sc ts' r.
+Proof. intros R sc ts ts' r P. unfold next_r. rewrite (total_perm _ _ P), (maxw_perm _ _ P). reflexivity. Qed.
+
+(** the SET of possible outcomes does not depend on the order of the entries *)
+Lemma wld_all_perm : forall R (sc : score R) fuel ts ts' r tmax, Permutation ts ts' ->
+  match wld_all sc fuel ts r tmax, wld_all sc fuel ts' r tmax with
+  | Some l, Some l' => forall x, In x l <-> In x l'
+  | None, None => True
+  | _, _ => False
+  end.
+Proof.
+  intros R sc; induction fuel as [|f IH]; intros ts ts' r tmax P; simpl; [exact I|].
+  rewrite <- (next_r_perm R sc _ _ r P). destruct (s_ge sc (next_r sc ts r)); [|tauto].
+  pose proof (fold_ocat _ _ (fun tm => wld_all sc f (next_ts ts tm) (next_r sc ts r) tm) (cands ts)) as F1.
+  pose proof (fold_ocat _ _ (fun tm => wld_all sc f (next_ts ts' tm) (next_r sc ts r) tm) (cands ts')) as F2.
+  simpl in F1, F2.
+  assert (Step : forall tm, match wld_all sc f (next_ts ts tm) (next_r sc ts r) tm, wld_all sc f (next_ts ts' tm) (next_r sc ts r) tm with
+                            | Some l, Some l' => forall x, In x l <-> In x l' | None, None => True | _, _ => False end).
+  { intros tm. apply IH. apply next_ts_perm; auto. }
+  destruct (fold_right _ _ (cands ts)) as [l|]; destruct (fold_right _ _ (cands ts')) as [l'|].
+  - destruct F1 as [A1 B1]. destruct F2 as [A2 B2]. intros x. rewrite B1, B2. split.
+    + intros [tm [l0 [Hi [E Hx]]]]. apply (cands_perm _ _ tm P) in Hi. destruct (A2 _ Hi) as [l1 E1].
+      specialize (Step tm). rewrite E, E1 in Step. exists tm, l1. split; auto. split; auto. apply Step; auto.
+    + intros [tm [l0 [Hi [E Hx]]]]. apply (cands_perm _ _ tm P) in Hi. destruct (A1 _ Hi) as [l1 E1].
+      specialize (Step tm). rewrite E, E1 in Step. exists tm, l1. split; auto. split; auto. apply Step; auto.
+  - destruct F1 as [A1 _]. destruct F2 as [tm [Hi E]]. apply (cands_perm _ _ tm P) in Hi. destruct (A1 _ Hi) as [l1 E1].
+    specialize (Step tm). rewrite E, E1 in Step. exact Step.
+  - destruct F2 as [A2 _]. destruct F1 as [tm [Hi E]]. apply (cands_perm _ _ tm P) in Hi. destruct (A2 _ Hi) as [l1 E1].
+    specialize (Step tm). rewrite E, E1 in Step. exact Step.
+  - exact I.
+Qed.
+
+Lemma notie_perm : forall R (sc : score R) fuel ts ts' r, Permutation ts ts' -> notie sc fuel ts r = true -> notie sc fuel ts' r = true.
+Proof.
+  intros R sc; induction fuel as [|f IH]; intros ts ts' r P H; simpl in *; [reflexivity|].
+  rewrite <- (next_r_perm R sc _ _ r P). destruct (s_ge sc (next_r sc ts r)); [|reflexivity].
+  destruct (cands ts) as [|tm [|tm2 cs]] eqn:C; try discriminate.
+  assert (Hin : In tm (cands ts')) by (apply (cands_perm _ _ tm P); rewrite C; left; auto).
+  assert (Hall : forall x, In x (cands ts') -> x = tm).
+  { intros x Hx. apply (cands_perm _ _ x P) in Hx. rewrite C in Hx. destruct Hx as [<-|[]]; auto. }
+  assert (ND : NoDup (cands ts')).
+  { unfold cands. destruct (0 <? maxw ts'); [|repeat constructor; intros []].
+    apply FinFun.Injective_map_NoDup; [intros a b E; congruence|]. apply NoDup_filter. apply heads_NoDup. }
+  destruct (cands ts') as [|a [|b cs']]; [destruct Hin| |].
+  - rewrite (Hall a (or_introl eq_refl)). eapply IH; [apply next_ts_perm|]; eauto.
+  - exfalso. inversion ND as [|? ? Hn _]; subst. apply Hn. rewrite (Hall a), (Hall b); simpl; auto.
+Qed.
+
+(** with no passing tie, the run in list order gives the same outcome whatever the order *)
+Lemma wld_perm_notie : forall R (sc : score R) fuel ts ts' r tmax, Permutation ts ts' -> notie sc fuel ts r = true ->
+  wld sc fuel ts r tmax = wld sc fuel ts' r tmax.
+Proof.
+  intros R sc fuel ts ts' r tmax P H.
+  pose proof (wld_all_perm R sc fuel ts ts' r tmax P) as W.
+  rewrite (notie_single R sc _ _ _ tmax H), (notie_single R sc _ _ _ tmax (notie_perm R sc _ _ _ _ P H)) in W.
+  destruct (wld sc fuel ts r tmax) as [x|], (wld sc fuel ts' r tmax) as [y|]; simpl in W; try tauto.
+  f_equal. destruct (proj1 (W x) (or_introl eq_refl)) as [E|[]]. auto.
+Qed.
+
+(** *** Threshold 1.0 is the instance [sc_one]; there a tie never passes *)
+Lemma wl_is_wld_one : forall fuel ts tmax, wl fuel ts tmax = option_map fst (wld sc_one fuel ts true tmax).
+Proof.
+  induction fuel as [|f IH]; intros ts tmax; simpl; [reflexivity|].
+  unfold next_r, maxw, pick. simpl. destruct (argmax ts ts 0 None) as [wmax tm]. simpl.
+  destruct (0 <? total ts); simpl; [|reflexivity].
+  destruct (wmax =? total ts); simpl; [apply IH|reflexivity].
+Qed.
+
+Lemma hw_two : forall h h' ts, h <> h' -> nonneg ts -> head_weight h ts + head_weight h' ts <= total ts.
+Proof.
+  intros h h' ts Hne; induction ts as [|e ts IH]; intros Hn; [simpl; lia|].
+  apply nonneg_cons in Hn. destruct Hn as [He Hn]. specialize (IH Hn). rewrite !hw_cons, total_cons.
+  destruct (fst e) as [|a r]; [lia|]. destruct (a =? h)%N eqn:E1; destruct (a =? h')%N eqn:E2; try lia.
+  apply N.eqb_eq in E1, E2. congruence.
+Qed.
+
+Lemma nonneg_next : forall ts tm, nonneg ts -> nonneg (next_ts ts tm).
+Proof.
+  intros ts tm Hn e He. unfold next_ts in He. apply in_map_iff in He. destruct He as [e' [<- He']].
+  apply filter_In in He'. simpl. apply Hn; tauto.
+Qed.
+
+(** two maximal children: each of them carries at most half of the total *)
+Lemma tie_half : forall ts, nonneg ts -> (forall a, cands ts <> [a]) -> 2 * maxw ts <= total ts.
+Proof.
+  intros ts Hn Hc. pose proof (pick_in_cands ts) as P.
+  destruct (cands ts) as [|a [|b cs]] eqn:C; [destruct P|exfalso; eapply Hc; eauto|].
+  assert (ND : NoDup (cands ts)).
+  { unfold cands. destruct (0 <? maxw ts); [|repeat constructor; intros []].
+    apply FinFun.Injective_map_NoDup; [intros x y E; congruence|]. apply NoDup_filter. apply heads_NoDup. }
+  rewrite C in ND. assert (Hab : a <> b). { inversion ND as [|? ? Hn' _]; subst. intros ->. apply Hn'; left; auto. }
+  assert (Ia : In a (cands ts)) by (rewrite C; left; auto). assert (Ib : In b (cands ts)) by (rewrite C; right; left; auto).
+  apply in_cands in Ia. apply in_cands in Ib.
+  destruct a as [a|]; destruct b as [b|].
+  - destruct Ia as [_ [_ Wa]]. destruct Ib as [_ [_ Wb]]. assert (a <> b) by congruence.
+    pose proof (hw_two a b ts H Hn). lia.
+  - destruct Ia; lia.
+  - destruct Ib; lia.
+  - congruence.
+Qed.
+
+Lemma notie_one : forall fuel ts, nonneg ts -> notie sc_one fuel ts true = true.
+Proof.
+  induction fuel as [|f IH]; intros ts Hn; simpl; [reflexivity|].
+  unfold next_r. simpl. destruct (0 <? total ts) eqn:T; simpl; [|reflexivity].
+  destruct (maxw ts =? total ts) eqn:E; simpl; [|reflexivity].
+  apply Z.ltb_lt in T. apply Z.eqb_eq in E.
+  destruct (cands ts) as [|a [|b cs]] eqn:C.
+  - pose proof (pick_in_cands ts) as P. rewrite C in P. destruct P.
+  - unfold next_r in IH. specialize (IH (next_ts ts a) (nonneg_next _ a Hn)). exact IH.
+  - exfalso. assert (2 * maxw ts <= total ts). { apply tie_half; auto. intros x Hx. rewrite C in Hx. discriminate. } lia.
+Qed.
+
+(** *** Exact rational arithmetic, threshold tn/td > 1/2: a tie never passes, hence ONE outcome for every input *)
+Definition q_le1 (r : Z * Z) : Prop := 0 <= fst r <= snd r /\ 0 < snd r.
+
+Lemma notie_q_above_half : forall tn td, 0 < td -> td < 2 * tn ->
+  forall fuel ts r, nonneg ts -> q_le1 r -> notie (sc_q tn td) fuel ts r = true.
+Proof.
+  intros tn td Htd Hthr; induction fuel as [|f IH]; intros ts r Hn [[R0 R1] R2]; [reflexivity|]. cbn [notie].
+  destruct (maxw_is ts) as [[M0 [M1 M2]] _].
+  assert (Mle : maxw ts <= total ts).
+  { destruct M2 as [->|[h [_ ->]]]; [|apply hw_bounds; auto]. pose proof (hw_bounds 0%N ts Hn). lia. }
+  set (r' := next_r (sc_q tn td) ts r).
+  assert (L1 : q_le1 r').
+  { unfold r', next_r. destruct (0 <? total ts) eqn:T; simpl; [|unfold q_le1; simpl; lia].
+    apply Z.ltb_lt in T. unfold q_le1; simpl. split; [split|].
+    - apply Z.mul_nonneg_nonneg; lia.
+    - apply Z.mul_le_mono_nonneg; lia.
+    - apply Z.mul_pos_pos; lia. }
+  destruct (s_ge (sc_q tn td) r') eqn:G; [|reflexivity].
+  destruct (cands ts) as [|a [|b cs]] eqn:C.
+  - pose proof (pick_in_cands ts) as P. rewrite C in P. destruct P.
+  - apply IH; [apply nonneg_next|]; auto.
+  - exfalso. assert (H2 : 2 * maxw ts <= total ts). { apply tie_half; auto. intros x Hx. rewrite C in Hx. discriminate. }
+    unfold r', next_r in G. destruct (0 <? total ts) eqn:T; simpl in G.
+    + apply Z.ltb_lt in T. apply Z.leb_le in G.
+      set (A := fst r) in *. set (B := snd r) in *. set (W := maxw ts) in *. set (T0 := total ts) in *.
+      assert (E1 : A * W <= B * W) by (apply Z.mul_le_mono_nonneg_r; lia).
+      assert (E2 : 2 * (B * W) <= B * T0) by (rewrite Z.mul_assoc, (Z.mul_comm 2 B), <- Z.mul_assoc; apply Z.mul_le_mono_nonneg_l; lia).
+      assert (E3 : 0 < B * T0) by (apply Z.mul_pos_pos; lia).
+      assert (E4 : 2 * (A * W * td) <= B * T0 * td).
+      { rewrite Z.mul_assoc. apply Z.mul_le_mono_nonneg_r; [lia|]. lia. }
+      assert (E5 : B * T0 * td < B * T0 * (2 * tn)) by (apply Z.mul_lt_mono_pos_l; lia).
+      assert (E6 : tn * (B * T0) = B * T0 * tn) by ring.
+      generalize dependent (A * W * td). generalize dependent (B * T0 * td). generalize dependent (B * T0). intros. lia.
+    + apply Z.leb_le in G. simpl in G. lia.
+Qed.
+Close Scope Z_scope.
+
 (** ** ... and on a well-formed taxonomy that element is the deepest taxon above every taxon of positive weight *)
 Definition rp (t : tax) (x : N) : list N := match path t x with Some p => rev p | None => [] end.
 Definition wentry (t : tax) (e : N * Z) : wt := (rp t (fst e), snd e).
@@ -828,45 +1162,56 @@ Proof.
         apply Hall; apply (Hdp e); right; auto.
 Qed.
 
-(** TaxonomicDistribution (keys resolved through the alias table, same node overwritten) *)
-Lemma upsert_in : forall x w l y v, In (y, v) (upsert x w l) -> (y, v) = (x, w) \/ In (y, v) l.
+(** TaxonomicDistribution (keys resolved through the alias table, weights of the same node added) *)
+Lemma addw_in : forall x w l y v, In (y, v) (addw x w l) ->
+  (y = x /\ (v = w \/ exists v0, In (x, v0) l /\ v = (v0 + w)%Z)) \/ In (y, v) l.
 Proof.
   intros x w l; induction l as [|[a b] l IH]; intros y v H; simpl in H.
-  - destruct H as [H|[]]; auto.
-  - destruct (a =? x) eqn:E; destruct H as [H|H]; simpl; auto.
-    destruct (IH _ _ H); auto.
+  - destruct H as [H|[]]. inversion H; subst. left; split; auto.
+  - destruct (a =? x) eqn:E.
+    + apply N.eqb_eq in E; subst a. destruct H as [H|H]; [|right; right; auto].
+      inversion H; subst. left; split; auto. right. exists b; split; [left; auto|reflexivity].
+    + destruct H as [H|H]; [right; left; auto|].
+      destruct (IH _ _ H) as [[-> [->|[v0 [Hv0 ->]]]]|Hin]; [left; split; auto|left; split; auto; right; exists v0; split; [right; auto|reflexivity]|right; right; auto].
 Qed.
 
-Lemma upsert_keeps : forall x w l y v, In (y, v) l -> exists v', In (y, v') (upsert x w l).
+Lemma addw_keeps : forall x w l y v, In (y, v) l -> exists v', In (y, v') (addw x w l).
 Proof.
   intros x w l; induction l as [|[a b] l IH]; intros y v H; simpl in *; [tauto|].
   destruct (a =? x) eqn:E.
-  - apply N.eqb_eq in E; subst. destruct H as [H|H]; [inversion H; subst; exists w; left; auto|exists v; right; auto].
+  - apply N.eqb_eq in E; subst. destruct H as [H|H]; [inversion H; subst; eexists; left; eauto|exists v; right; auto].
   - destruct H as [H|H]; [exists v; left; auto|]. destruct (IH _ _ H) as [v' Hv']. exists v'; right; auto.
 Qed.
 
-Lemma upsert_has : forall x w l, exists v', In (x, v') (upsert x w l).
+Lemma addw_has : forall x w l, exists v', In (x, v') (addw x w l).
 Proof.
   intros x w l; induction l as [|[a b] l IH]; simpl; [exists w; left; auto|].
-  destruct (a =? x) eqn:E; [exists w; left; auto|]. destruct IH as [v' Hv']. exists v'; right; auto.
+  destruct (a =? x) eqn:E; [eexists; left; eauto|]. destruct IH as [v' Hv']. exists v'; right; auto.
 Qed.
 
 Lemma distribution_spec : forall t m acc d, distribution t m acc = Some d ->
-  (forall x w, In (x, w) d -> In (x, w) acc \/ exists k, In (k, w) m /\ resolve t k = Some x) /\
+  (forall x w, In (x, w) d -> (exists w0, In (x, w0) acc) \/ exists k w0, In (k, w0) m /\ resolve t k = Some x) /\
   (forall k w, In (k, w) m -> exists x w', resolve t k = Some x /\ In (x, w') d) /\
-  (forall x w, In (x, w) acc -> exists w', In (x, w') d).
+  (forall x w, In (x, w) acc -> exists w', In (x, w') d) /\
+  ((forall e, In e acc -> (0 < snd e)%Z) -> (forall k w, In (k, w) m -> (0 < w)%Z) -> forall e, In e d -> (0 < snd e)%Z).
 Proof.
   intros t m; induction m as [|[k w] m IH]; intros acc d H; simpl in H.
   - inversion H; subst. repeat split; eauto. intros k w [].
   - destruct (resolve t k) as [x|] eqn:R; [|discriminate].
-    destruct (IH _ _ H) as [A [B C]]. repeat split.
-    + intros y v Hy. destruct (A _ _ Hy) as [Hu|[k' [Hk' Rk']]].
-      * destruct (upsert_in _ _ _ _ _ Hu) as [E|Hacc]; auto. inversion E; subst. right; exists k; split; auto. left; auto.
-      * right; exists k'; split; auto. right; auto.
+    destruct (IH _ _ H) as [A [B [C P]]]. split; [|split; [|split]].
+    + intros y v Hy. destruct (A _ _ Hy) as [[w0 Hu]|[k' [w0 [Hk' Rk']]]].
+      * destruct (addw_in _ _ _ _ _ Hu) as [[-> _]|Hacc]; [right; exists k, w; split; [left|]; auto|left; eauto].
+      * right; exists k', w0; split; auto. right; auto.
     + intros k' w' [E|Hk'].
-      * inversion E; subst. destruct (upsert_has x w' acc) as [v' Hv']. destruct (C _ _ Hv') as [w'' Hw'']. eauto.
+      * inversion E; subst. destruct (addw_has x w' acc) as [v' Hv']. destruct (C _ _ Hv') as [w'' Hw'']. eauto.
       * apply B in Hk'. exact Hk'.
-    + intros y v Hy. destruct (upsert_keeps x w _ _ _ Hy) as [v' Hv']. eauto.
+    + intros y v Hy. destruct (addw_keeps x w _ _ _ Hy) as [v' Hv']. eauto.
+    + intros Pa Pm. apply P.
+      * intros [y v] Hy. simpl. destruct (addw_in _ _ _ _ _ Hy) as [[-> [->|[v0 [Hv0 ->]]]]|Hin].
+        -- apply (Pm k w); left; auto.
+        -- pose proof (Pa _ Hv0) as P0. pose proof (Pm k w (or_introl eq_refl)) as P1. simpl in P0. lia.
+        -- apply (Pa _ Hin).
+      * intros k' w' Hk'. apply (Pm k' w'); right; auto.
 Qed.
 
 Lemma distribution_total : forall t m acc, (forall k w, In (k, w) m -> resolve t k <> None) ->
@@ -884,13 +1229,12 @@ Lemma wlca_char : forall t m, wf_tax t -> alias_ok t -> m <> [] ->
 Proof.
   intros t m W A Hne Hm.
   destruct (distribution_total t m [] (fun k w H => proj2 (Hm k w H))) as [d Hd].
-  destruct (distribution_spec _ _ _ _ Hd) as [D1 [D2 _]].
-  assert (Hdd : forall e, In e d -> present t (fst e) /\ (0 <= snd e)%Z).
-  { intros [x w] He. destruct (D1 _ _ He) as [[]|[k [Hk Rk]]]. simpl. split.
-    - eapply resolve_present; eauto.
-    - destruct (Hm _ _ Hk); lia. }
+  destruct (distribution_spec _ _ _ _ Hd) as [D1 [D2 [_ DP]]].
   assert (Hpos : forall e, In e d -> (0 < snd e)%Z).
-  { intros [x w] He. destruct (D1 _ _ He) as [[]|[k [Hk Rk]]]. simpl. destruct (Hm _ _ Hk); auto. }
+  { apply DP; [intros e []|]. intros k w Hk. apply (Hm k w Hk). }
+  assert (Hdd : forall e, In e d -> present t (fst e) /\ (0 <= snd e)%Z).
+  { intros [x w] He. split; [|pose proof (Hpos _ He); simpl in *; lia].
+    destruct (D1 _ _ He) as [[w0 []]|[k [w0 [Hk Rk]]]]. simpl. eapply resolve_present; eauto. }
   assert (Hex : exists e, In e d /\ (0 < snd e)%Z).
   { destruct m as [|[k w] m']; [congruence|]. destruct (D2 k w (or_introl eq_refl)) as [x [w' [_ Hx]]].
     exists (x, w'); split; auto. }
@@ -901,7 +1245,7 @@ Proof.
   intros u. rewrite C. split.
   - intros Hall k w Hk. destruct (D2 _ _ Hk) as [x [w' [Rk Hx]]]. exists x; split; auto.
     apply (Hall (x, w')); auto.
-  - intros Hall [x w] He _. destruct (D1 _ _ He) as [[]|[k [Hk Rk]]].
+  - intros Hall [x w] He _. destruct (D1 _ _ He) as [[w0 []]|[k [w0 [Hk Rk]]]].
     destruct (Hall _ _ Hk) as [x' [Rk' Ax]]. simpl. congruence.
 Qed.
 
@@ -918,6 +1262,882 @@ Proof.
   rewrite E, E'. do 2 f_equal. apply (anc_antisym t).
   - apply C. intros k w Hk. apply (proj1 (C' z') (present_anc_refl _ _ W Pz') k w). eapply Permutation_in; eauto.
   - apply C'. intros k w Hk. apply (proj1 (C z) (present_anc_refl _ _ W Pz) k w). eapply Permutation_in; [apply Permutation_sym|]; eauto.
+Qed.
+
+
+(** ** TaxonomicDistribution as a function of the SET of merged taxids: node x weighs the sum of the counts of the
+    keys that designate x; Taxonomy.LCA on it gives the same set of outcomes whatever the order of the map *)
+Open Scope Z_scope.
+Fixpoint wsum (t : tax) (m : list (N * Z)) (x : N) : Z :=
+  match m with
+  | [] => 0
+  | (k, w) :: m' => match resolve t k with
+                    | Some y => if (y =? x)%N then w + wsum t m' x else wsum t m' x
+                    | None => wsum t m' x
+                    end
+  end.
+Fixpoint accw (acc : list (N * Z)) (x : N) : Z :=
+  match acc with [] => 0 | (y, v) :: l => if (y =? x)%N then v else accw l x end.
+
+Lemma accw_cons : forall y v l x, accw ((y, v) :: l) x = if (y =? x)%N then v else accw l x.
+Proof. reflexivity. Qed.
+Lemma addw_cons : forall x w a b l, addw x w ((a, b) :: l) = if (a =? x)%N then (x, b + w) :: l else (a, b) :: addw x w l.
+Proof. reflexivity. Qed.
+Lemma addw_spec : forall x w l, NoDup (map fst l) ->
+  NoDup (map fst (addw x w l)) /\
+  (forall y, In y (map fst (addw x w l)) <-> y = x \/ In y (map fst l)) /\
+  (forall y, accw (addw x w l) y = if (x =? y)%N then accw l x + w else accw l y).
+Proof.
+  intros x w l; induction l as [|[a b] l IH]; intros ND.
+  - simpl. split; [repeat constructor; intros []|]. split; [intros y; split; [intros [->|[]]; auto|intros [->|[]]; auto]|].
+    intros y. destruct (x =? y)%N; lia.
+  - inversion ND as [|? ? Hna ND']; subst. destruct (IH ND') as [I1 [I2 I3]]. rewrite addw_cons. destruct (a =? x)%N eqn:E.
+    + apply N.eqb_eq in E; subst a. split; [simpl; constructor; auto|]. split; [intros y; simpl; split; [intros [->|H]; auto|intros [->|[->|H]]; auto]|].
+      intros y. rewrite !accw_cons. rewrite N.eqb_refl. destruct (x =? y)%N; lia.
+    + split; [simpl; constructor; auto; rewrite I2; intros [->|H]; [rewrite N.eqb_refl in E; discriminate|auto]|].
+      split; [intros y; simpl; rewrite I2; tauto|].
+      intros y. rewrite !accw_cons. rewrite I3. rewrite E. destruct (a =? y)%N eqn:E2.
+      * apply N.eqb_eq in E2; subst y. rewrite (N.eqb_sym x a), E. reflexivity.
+      * reflexivity.
+Qed.
+
+Lemma accw_in : forall l x w, NoDup (map fst l) -> (In (x, w) l <-> In x (map fst l) /\ accw l x = w).
+Proof.
+  induction l as [|[a b] l IH]; intros x w ND; simpl; [tauto|].
+  inversion ND as [|? ? Hna ND']; subst. destruct (a =? x)%N eqn:E.
+  - apply N.eqb_eq in E; subst a. split.
+    + intros [H|H]; [inversion H; auto|]. exfalso. apply Hna. apply in_map_iff. exists (x, w); auto.
+    + intros [_ ->]. auto.
+  - apply N.eqb_neq in E. rewrite IH by auto. split.
+    + intros [H|[H1 H2]]; [inversion H; congruence|auto].
+    + intros [[H|H] H2]; [congruence|auto].
+Qed.
+
+Lemma distribution_char : forall t m acc d, distribution t m acc = Some d -> NoDup (map fst acc) ->
+  NoDup (map fst d) /\
+  (forall x, In x (map fst d) <-> In x (map fst acc) \/ exists k w0, In (k, w0) m /\ resolve t k = Some x) /\
+  (forall x, accw d x = accw acc x + wsum t m x).
+Proof.
+  intros t m; induction m as [|[k w] m IH]; intros acc d H ND; simpl in H.
+  - inversion H; subst. split; auto. split; [intros x; split; [auto|intros [?|[k [w0 [[] _]]]]; auto]|]. intros x; simpl; lia.
+  - destruct (resolve t k) as [y|] eqn:Rk; [|discriminate].
+    destruct (addw_spec y w acc ND) as [A1 [A2 A3]]. destruct (IH _ _ H A1) as [I1 [I2 I3]].
+    split; auto. split.
+    + intros x. rewrite I2, A2. split.
+      * intros [[->|Hx]|[k' [w0 [Hk Rk']]]]; [right; exists k, w; split; [left|]; auto|left; auto|right; exists k', w0; split; [right|]; auto].
+      * intros [Hx|[k' [w0 [[E|Hk] Rk']]]]; [left; right; auto|inversion E; subst; left; left; congruence|right; eauto].
+    + intros x. rewrite I3, A3. simpl. rewrite Rk. destruct (y =? x)%N eqn:E; [apply N.eqb_eq in E; subst|]; lia.
+Qed.
+
+Lemma wsum_perm : forall t m m' x, Permutation m m' -> wsum t m x = wsum t m' x.
+Proof.
+  intros t m m' x P; induction P; simpl; try lia.
+  - destruct x0 as [k w]. destruct (resolve t k) as [y|]; [destruct (y =? x)%N|]; lia.
+  - destruct x0 as [k w], y as [k' w']. destruct (resolve t k) as [y|], (resolve t k') as [y'|]; try destruct (y =? x)%N; try destruct (y' =? x)%N; lia.
+Qed.
+
+Lemma distribution_none : forall t m acc, distribution t m acc = None <-> exists k w, In (k, w) m /\ resolve t k = None.
+Proof.
+  intros t m; induction m as [|[k w] m IH]; intros acc; simpl.
+  - split; [discriminate|intros [k [w [[] _]]]].
+  - destruct (resolve t k) as [y|] eqn:Rk.
+    + rewrite IH. split; intros [k' [w' [Hk Rk']]]; exists k', w'; split; auto. destruct Hk as [E|Hk]; auto. inversion E; subst; congruence.
+    + split; auto. intros _. exists k, w; split; [left|]; auto.
+Qed.
+
+Lemma NoDup_fst : forall (l : list (N * Z)), NoDup (map fst l) -> NoDup l.
+Proof.
+  induction l as [|a l IH]; intros H; [constructor|]. inversion H; subst. constructor; auto.
+  intros Hi. apply H2. apply in_map; auto.
+Qed.
+
+Lemma distribution_perm : forall t m m', Permutation m m' ->
+  match distribution t m [], distribution t m' [] with
+  | Some d, Some d' => Permutation d d'
+  | None, None => True
+  | _, _ => False
+  end.
+Proof.
+  intros t m m' P.
+  destruct (distribution t m []) as [d|] eqn:D; destruct (distribution t m' []) as [d'|] eqn:D'.
+  - destruct (distribution_char _ _ _ _ D (NoDup_nil _)) as [N1 [M1 W1]].
+    destruct (distribution_char _ _ _ _ D' (NoDup_nil _)) as [N2 [M2 W2]].
+    apply NoDup_Permutation; [apply NoDup_fst; auto|apply NoDup_fst; auto|].
+    intros [x w]. rewrite (accw_in d x w N1), (accw_in d' x w N2), M1, M2, W1, W2, (wsum_perm t m m' x P).
+    assert (K : (exists k w0, In (k, w0) m /\ resolve t k = Some x) <-> (exists k w0, In (k, w0) m' /\ resolve t k = Some x)).
+    { split; intros [k [w0 [Hk Rk]]]; exists k, w0; split; auto; [eapply Permutation_in|eapply Permutation_in; [apply Permutation_sym|]]; eauto. }
+    simpl. tauto.
+  - apply distribution_none in D'. destruct D' as [k [w [Hk Rk]]].
+    assert (Dn : distribution t m [] = None) by (apply distribution_none; exists k, w; split; auto; eapply Permutation_in; [apply Permutation_sym|]; eauto).
+    congruence.
+  - apply distribution_none in D. destruct D as [k [w [Hk Rk]]].
+    assert (Dn : distribution t m' [] = None) by (apply distribution_none; exists k, w; split; auto; eapply Permutation_in; eauto).
+    congruence.
+  - exact I.
+Qed.
+Close Scope Z_scope.
+
+Lemma rpaths_some : forall t d ts, rpaths t d = Some ts <-> (forall e, In e d -> path t (fst e) <> None) /\ ts = map (wentry t) d.
+Proof.
+  intros t d; induction d as [|[x w] d IH]; intros ts.
+  - simpl. split; [intros H; inversion H; split; auto; intros e []|intros [_ ->]; reflexivity].
+  - cbn [rpaths map]. unfold wentry at 1. unfold rp. cbn [fst snd].
+    destruct (path t x) as [p|] eqn:Hp.
+    + destruct (rpaths t d) as [r|] eqn:Hr.
+      * destruct (proj1 (IH r) eq_refl) as [A ->]. split.
+        -- intros H; inversion H; subst. split; [intros e [<-|He]; cbn [fst]; [congruence|auto]|]. reflexivity.
+        -- intros [_ ->]. reflexivity.
+      * split; [discriminate|]. intros [A _]. exfalso.
+        assert (K : None = Some (map (wentry t) d)) by (apply IH; split; auto; intros e He; apply A; right; auto). discriminate.
+    + split; [discriminate|]. intros [A _]. exfalso. apply (A (x, w)); [left; auto|exact Hp].
+Qed.
+
+Lemma rpaths_perm : forall t d d', Permutation d d' ->
+  match rpaths t d, rpaths t d' with
+  | Some ts, Some ts' => Permutation ts ts'
+  | None, None => True
+  | _, _ => False
+  end.
+Proof.
+  intros t d d' P.
+  destruct (rpaths t d) as [ts|] eqn:E; destruct (rpaths t d') as [ts'|] eqn:E'.
+  - apply rpaths_some in E. apply rpaths_some in E'. destruct E as [_ ->]. destruct E' as [_ ->]. apply Permutation_map; auto.
+  - apply rpaths_some in E. destruct E as [A _].
+    assert (rpaths t d' = Some (map (wentry t) d')) by (apply rpaths_some; split; auto; intros e He; apply A; eapply Permutation_in; [apply Permutation_sym|]; eauto). congruence.
+  - apply rpaths_some in E'. destruct E' as [A _].
+    assert (rpaths t d = Some (map (wentry t) d)) by (apply rpaths_some; split; auto; intros e He; apply A; eapply Permutation_in; eauto). congruence.
+  - exact I.
+Qed.
+
+(** in a well-formed taxonomy every root-first lineage starts at the root: the initial answer is the root whatever entry comes first *)
+Definition init_of (ts : list wt) : option N := match ts with (h :: _, _) :: _ => Some h | _ => None end.
+
+Lemma rp_head : forall t x p, is_path t x p -> exists z l r, lasto p = Some z /\ rev p = z :: l /\ get t z = Some (z, r).
+Proof.
+  intros t x p H. destruct (is_path_last_root _ _ _ H) as [z [r [L G]]]. destruct (lasto_some _ _ L) as [l0 E].
+  exists z, (rev l0), r. split; auto. split; auto. rewrite E, rev_app_distr. reflexivity.
+Qed.
+
+Lemma init_perm : forall t d d', wf_tax t -> Permutation d d' -> (forall e, In e d -> path t (fst e) <> None) ->
+  init_of (map (wentry t) d) = init_of (map (wentry t) d').
+Proof.
+  intros t d d' W P A.
+  assert (K : forall d0, (forall e, In e d0 -> path t (fst e) <> None) -> forall root r0, get t root = Some (root, r0) ->
+              init_of (map (wentry t) d0) = match d0 with [] => None | _ => Some root end).
+  { intros d0 A0 root r0 G. destruct d0 as [|[x w] d0]; [reflexivity|]. simpl. unfold rp.
+    destruct (path t x) as [p|] eqn:Hp; [|exfalso; apply (A0 (x, w)); [left; auto|exact Hp]].
+    apply path_sound in Hp. destruct (rp_head _ _ _ Hp) as [z [l [r [_ [E Gz]]]]]. rewrite E.
+    destruct (wf_root _ W) as [rt [_ U]]. rewrite (U _ _ Gz), (U _ _ G). reflexivity. }
+  destruct (wf_root _ W) as [rt [[r0 G] _]].
+  rewrite (K d A rt r0 G), (K d') with (root := rt) (r0 := r0); auto.
+  - destruct d as [|a d]; [apply Permutation_nil in P; subst; reflexivity|].
+    destruct d' as [|b d']; [apply Permutation_sym, Permutation_nil in P; discriminate|reflexivity].
+  - intros e He. apply A. eapply Permutation_in; [apply Permutation_sym|]; eauto.
+Qed.
+
+(** Taxonomy.LCA(sequence, threshold) for ANY arithmetic: the set of possible (answer, rans, granTotal) is a function
+    of the merged_taxid map as a set of (key, count) pairs *)
+Lemma wlcad_perm : forall R (sc : score R) t m m', wf_tax t -> Permutation m m' ->
+  match wlcad sc t m, wlcad sc t m' with
+  | Some l, Some l' => forall x, In x l <-> In x l'
+  | None, None => True
+  | _, _ => False
+  end.
+Proof.
+  intros R sc t m m' W P. unfold wlcad.
+  pose proof (distribution_perm t m m' P) as DP.
+  destruct (distribution t m []) as [d|]; destruct (distribution t m' []) as [d'|]; try tauto.
+  pose proof (rpaths_perm t d d' DP) as RP.
+  destruct (rpaths t d) as [ts|] eqn:E; destruct (rpaths t d') as [ts'|] eqn:E'; try tauto.
+  apply rpaths_some in E. apply rpaths_some in E'. destruct E as [A ->]. destruct E' as [A' ->].
+  fold (init_of (map (wentry t) d)). fold (init_of (map (wentry t) d')).
+  rewrite <- (init_perm t d d' W DP A). rewrite <- (total_perm _ _ RP).
+  destruct (s_ge sc (s_one sc)); [|tauto].
+  pose proof (wld_all_perm R sc (S (fuel_of t)) _ _ (s_one sc) (init_of (map (wentry t) d)) RP) as WP.
+  destruct (wld_all sc (S (fuel_of t)) (map (wentry t) d) (s_one sc) _) as [l|];
+    destruct (wld_all sc (S (fuel_of t)) (map (wentry t) d') (s_one sc) _) as [l'|]; simpl; try tauto.
+  intros x. rewrite !in_map_iff. split; intros [y [<- Hy]]; exists y; split; auto; apply WP; auto.
+Qed.
+
+
+(** ** Order independence at the level of Taxonomy.LCA(sequence, threshold) when no tie passes; above one half none can *)
+Definition wlca_notie {R} (sc : score R) (t : tax) (m : list (N * Z)) : bool :=
+  match distribution t m [] with
+  | Some d => match rpaths t d with Some ts => notie sc (S (fuel_of t)) ts (s_one sc) | None => true end
+  | None => true
+  end.
+
+Lemma wlcad1_perm_notie : forall R (sc : score R) t m m', wf_tax t -> Permutation m m' -> wlca_notie sc t m = true ->
+  wlcad1 sc t m = wlcad1 sc t m'.
+Proof.
+  intros R sc t m m' W P H. unfold wlcad1, wlca_notie in *.
+  pose proof (distribution_perm t m m' P) as DP.
+  destruct (distribution t m []) as [d|]; destruct (distribution t m' []) as [d'|]; try tauto.
+  pose proof (rpaths_perm t d d' DP) as RP.
+  destruct (rpaths t d) as [ts|] eqn:E; destruct (rpaths t d') as [ts'|] eqn:E'; try tauto.
+  apply rpaths_some in E. apply rpaths_some in E'. destruct E as [A ->]. destruct E' as [A' ->].
+  fold (init_of (map (wentry t) d)). fold (init_of (map (wentry t) d')).
+  rewrite <- (init_perm t d d' W DP A).
+  destruct (s_ge sc (s_one sc)); [|reflexivity].
+  apply wld_perm_notie; auto.
+Qed.
+
+Lemma wsum_nonneg : forall t m x, (forall k w, In (k, w) m -> (0 <= w)%Z) -> (0 <= wsum t m x)%Z.
+Proof.
+  intros t m x; induction m as [|[k w] m IH]; intros H; simpl; [lia|].
+  assert (0 <= w)%Z by (apply (H k w); left; auto).
+  assert (0 <= wsum t m x)%Z by (apply IH; intros k' w' Hk; apply (H k' w'); right; auto).
+  destruct (resolve t k) as [y|]; [destruct (y =? x)|]; lia.
+Qed.
+
+Lemma distribution_nonneg : forall t m d, distribution t m [] = Some d -> (forall k w, In (k, w) m -> (0 <= w)%Z) ->
+  forall e, In e d -> (0 <= snd e)%Z.
+Proof.
+  intros t m d D H [x w] He. destruct (distribution_char _ _ _ _ D (NoDup_nil _)) as [N1 [_ W1]].
+  apply (accw_in d x w N1) in He. destruct He as [_ <-]. rewrite W1. simpl. pose proof (wsum_nonneg t m x H). lia.
+Qed.
+
+Lemma wlca_notie_q_above_half : forall tn td t m, (0 < td)%Z -> (td < 2 * tn)%Z ->
+  (forall k w, In (k, w) m -> (0 <= w)%Z) -> wlca_notie (sc_q tn td) t m = true.
+Proof.
+  intros tn td t m Htd Hthr H. unfold wlca_notie.
+  destruct (distribution t m []) as [d|] eqn:D; [|reflexivity].
+  destruct (rpaths t d) as [ts|] eqn:E; [|reflexivity].
+  apply notie_q_above_half; auto.
+  - apply rpaths_some in E. destruct E as [_ ->]. intros e He. apply in_map_iff in He. destruct He as [e' [<- He']].
+    simpl. eapply distribution_nonneg; eauto.
+  - unfold q_le1; simpl; lia.
+Qed.
+
+Lemma wlca_notie_one : forall t m, (forall k w, In (k, w) m -> (0 <= w)%Z) -> wlca_notie sc_one t m = true.
+Proof.
+  intros t m H. unfold wlca_notie.
+  destruct (distribution t m []) as [d|] eqn:D; [|reflexivity].
+  destruct (rpaths t d) as [ts|] eqn:E; [|reflexivity].
+  apply notie_one. apply rpaths_some in E. destruct E as [_ ->]. intros e He. apply in_map_iff in He. destruct He as [e' [<- He']].
+  simpl. eapply distribution_nonneg; eauto.
+Qed.
+
+(** threshold 1.0: the round-1 model [wlca] is the instance [sc_one] of the general descent *)
+Lemma wlca_is_wlcad1_one : forall t m, wlca t m = option_map fst (wlcad1 sc_one t m).
+Proof.
+  intros t m. unfold wlca, wlcad1. destruct (distribution t m []) as [d|]; [|reflexivity].
+  destruct (rpaths t d) as [ts|]; [|reflexivity]. cbn [sc_one s_ge s_one]. apply wl_is_wld_one.
+Qed.
+
+(** ... so at threshold 1.0 the answer is independent of the map order for all counts >= 0 (zero counts included) *)
+Lemma wlca_perm_nonneg : forall t m m', wf_tax t -> (forall k w, In (k, w) m -> (0 <= w)%Z) -> Permutation m m' -> wlca t m = wlca t m'.
+Proof.
+  intros t m m' W H P. rewrite !wlca_is_wlcad1_one. f_equal. apply wlcad1_perm_notie; auto. apply wlca_notie_one; auto.
+Qed.
+
+Lemma wlca_q_above_half_perm : forall tn td t m m', wf_tax t -> (0 < td)%Z -> (td < 2 * tn)%Z ->
+  (forall k w, In (k, w) m -> (0 <= w)%Z) -> Permutation m m' ->
+  wlcad1 (sc_q tn td) t m = wlcad1 (sc_q tn td) t m'.
+Proof. intros tn td t m m' W Htd Hthr H P. apply wlcad1_perm_notie; auto. apply wlca_notie_q_above_half; auto. Qed.
+
+Lemma distribution_sums : forall t m d, distribution t m [] = Some d ->
+  NoDup (map fst d) /\
+  (forall x, In x (map fst d) <-> exists k w0, In (k, w0) m /\ resolve t k = Some x) /\
+  (forall x, accw d x = wsum t m x).
+Proof.
+  intros t m d D. destruct (distribution_char t m [] d D (NoDup_nil _)) as [A [B C]]. split; auto. split.
+  - intros x. rewrite B. simpl. tauto.
+  - intros x. rewrite C. reflexivity.
+Qed.
+
+(** *** Witnesses on the taxonomy 1 <- 2 <- 3 <- {4 <- {5, 6}, 7 <- 8} with aliases 99 -> 7, 98 -> 7 *)
+Definition tie_tax : tax :=
+  load [(1,1,0); (2,1,6); (3,2,3); (4,3,2); (5,4,1); (6,4,1); (7,3,2); (8,7,1)] [(99,7); (98,99)].
+Definition b64_half : spec_float := S754_finite false 4503599627370496 (-53).
+
+(** a tie that passes (threshold 1/2, genus 4 and genus 7 both carry half): the answer follows the iteration order *)
+Lemma tie_order_dependent :
+  Permutation [(5, 1%Z); (6, 1%Z); (8, 2%Z)] [(8, 2%Z); (5, 1%Z); (6, 1%Z)] /\
+  option_map fst (wlcad1 (sc_q 1 2) tie_tax [(5, 1%Z); (6, 1%Z); (8, 2%Z)]) = Some (Some 4) /\
+  option_map fst (wlcad1 (sc_q 1 2) tie_tax [(8, 2%Z); (5, 1%Z); (6, 1%Z)]) = Some (Some 8) /\
+  option_map fst (wlcad1 (sc_b64 b64_half) tie_tax [(5, 1%Z); (6, 1%Z); (8, 2%Z)]) = Some (Some 4) /\
+  option_map fst (wlcad1 (sc_b64 b64_half) tie_tax [(8, 2%Z); (5, 1%Z); (6, 1%Z)]) = Some (Some 8) /\
+  option_map (map (fun x : option N * spec_float * Z => fst (fst x))) (wlcad (sc_b64 b64_half) tie_tax [(5, 1%Z); (6, 1%Z); (8, 2%Z)]) = Some [Some 4; Some 8] /\
+  wlca_notie (sc_q 1 2) tie_tax [(5, 1%Z); (6, 1%Z); (8, 2%Z)] = false.
+Proof.
+  split; [apply Permutation_sym; apply (Permutation_cons_app [(5, 1%Z); (6, 1%Z)] [] (8, 2%Z)); rewrite app_nil_r; apply Permutation_refl|].
+  vm_compute. repeat split; reflexivity.
+Qed.
+
+(** before the fix of TaxonomicDistribution (overwrite): 99 is an alias of 7; with a zero count the LCA at threshold 1.0
+    followed the iteration order; after the fix (weights added) it does not *)
+Lemma overwrite_order_dependent :
+  wlca_ow tie_tax [(99, 0%Z); (7, 1%Z); (5, 2%Z)] = Some (Some 3) /\
+  wlca_ow tie_tax [(7, 1%Z); (99, 0%Z); (5, 2%Z)] = Some (Some 5) /\
+  wlca tie_tax [(99, 0%Z); (7, 1%Z); (5, 2%Z)] = Some (Some 3) /\
+  wlca tie_tax [(7, 1%Z); (99, 0%Z); (5, 2%Z)] = Some (Some 3) /\
+  option_map (map snd) (wlcad sc_one tie_tax [(99, 4%Z); (7, 1%Z); (5, 2%Z)]) = Some [7%Z].
+Proof. vm_compute. repeat split; reflexivity. Qed.
+
+(** ** Rows outside the tree do not change the answers on the tree: [t'] has every node of [t] (and possibly more) *)
+Definition extends (t t' : tax) : Prop := forall x v, get t x = Some v -> get t' x = Some v.
+
+Lemma extends_is_path : forall t t' x p, extends t t' -> is_path t x p -> is_path t' x p.
+Proof.
+  intros t t' x p E H; induction H as [x r Hg | x q r l Hg Hne Hp IH].
+  - econstructor; eauto.
+  - econstructor; eauto.
+Qed.
+
+Lemma find_ext_in : forall (f g : N -> bool) l, (forall y, In y l -> f y = g y) -> find f l = find g l /\ existsb f l = existsb g l.
+Proof.
+  intros f g l; induction l as [|a l IH]; intros H; simpl; auto.
+  rewrite <- (H a (or_introl eq_refl)). destruct (IH (fun y Hy => H y (or_intror Hy))) as [-> ->]. auto.
+Qed.
+
+Lemma extends_queries : forall t t' x p, extends t t' -> path t x = Some p ->
+  path t' x = Some p /\
+  (forall y q, path t y = Some q -> lca t' x y = lca t x y) /\
+  (forall a, subclade t' x a = subclade t x a) /\
+  (forall s, belongs t' x s = belongs t x s) /\
+  (forall r, at_rank t' x r = at_rank t x r /\ has_rank t' x r = has_rank t x r).
+Proof.
+  intros t t' x p E Hp.
+  assert (Hp' : path t' x = Some p) by (apply path_complete; eapply extends_is_path; eauto; apply path_sound; auto).
+  split; auto. split; [|split; [|split]].
+  - intros y q Hq. assert (Hq' : path t' y = Some q) by (apply path_complete; eapply extends_is_path; eauto; apply path_sound; auto).
+    unfold lca. rewrite Hp, Hp', Hq, Hq'. reflexivity.
+  - intros a. rewrite (proj1 (subclade_spec t x p a Hp)), (proj1 (subclade_spec t' x p a Hp')). reflexivity.
+  - intros s. rewrite (proj1 (belongs_spec t x p s Hp)), (proj1 (belongs_spec t' x p s Hp')). reflexivity.
+  - intros r. destruct (at_rank_spec t x p r Hp) as [A1 [A2 _]]. destruct (at_rank_spec t' x p r Hp') as [B1 [B2 _]].
+    rewrite A1, A2, B1, B2.
+    assert (K : forall y, In y p -> has_rank_at t' r y = has_rank_at t r y).
+    { intros y Hy. apply path_sound in Hp. destruct (is_path_in_table _ _ _ Hp y Hy) as [v Hv].
+      unfold has_rank_at. rewrite Hv, (E _ _ Hv). reflexivity. }
+    destruct (find_ext_in _ _ p K) as [-> ->]. auto.
+Qed.
+
+Lemma load_nodes_of : forall rows merged, t_nodes (load rows merged) = load_nodes rows.
+Proof.
+  intros rows merged. unfold load.
+  assert (G : forall t, t_nodes (fold_left add_alias merged t) = t_nodes t).
+  { induction merged as [|on merged IH]; intros t; simpl; auto. rewrite IH. destruct on as [o n]. unfold add_alias.
+    destruct (resolve t n); reflexivity. }
+  rewrite G. reflexivity.
+Qed.
+
+Lemma load_extends : forall rows extra merged merged',
+  (forall row, In row extra -> get (load rows merged) (fst (fst row)) = None) ->
+  extends (load rows merged) (load (rows ++ extra) merged').
+Proof.
+  intros rows extra merged merged' H x v G.
+  assert (Hne : forall row, In row extra -> fst (fst row) <> x).
+  { intros row Hr E. specialize (H row Hr). rewrite E in H. congruence. }
+  clear H. unfold get in *. rewrite load_nodes_of in *. unfold load_nodes in *. rewrite fold_left_app.
+  revert G. generalize (fold_left (fun m (row : N * N * N) => let '(x0, p, r) := row in PM.add (key x0) (p, r) m) rows (PM.empty (N * N))) as m0.
+  induction extra as [|[[g gp] gr] extra IH]; intros m0 G; simpl; auto.
+  apply IH.
+  - intros row Hr. apply Hne; right; auto.
+  - rewrite PM.gso; auto. intros K. apply key_inj in K. apply (Hne (g, gp, gr)); [left; auto|simpl; congruence].
+Qed.
+
+(** ** Taxonomy.Taxon(interface{}): the accepted spellings of one taxid designate the same taxon *)
+Lemma all_digits_cons : forall c r, all_digits (c :: r) = true -> is_digit c = true /\ forallb is_digit r = true.
+Proof. intros c r H. simpl in H. apply andb_prop in H. exact H. Qed.
+
+Lemma digit_not_sign : forall c, is_digit c = true -> (c =? 43) = false /\ (c =? 45) = false /\ (c =? 84) = false.
+Proof.
+  intros c H. unfold is_digit in H. apply andb_prop in H. destruct H as [H1 H2]. apply N.leb_le in H1. apply N.leb_le in H2.
+  repeat split; apply N.eqb_neq; lia.
+Qed.
+
+Lemma atoi_digits : forall d, all_digits d = true -> (digits_val 0 d < int_lim)%Z -> atoi d = Some (digits_val 0 d).
+Proof.
+  intros d A L. destruct d as [|c r]; [discriminate|]. destruct (all_digits_cons _ _ A) as [Dc _].
+  destruct (digit_not_sign c Dc) as [E1 [E2 _]]. unfold atoi. rewrite E1, E2. unfold atoi_u. rewrite A.
+  apply Z.ltb_lt in L. rewrite L. reflexivity.
+Qed.
+
+Lemma atoi_plus : forall d, all_digits d = true -> (digits_val 0 d < int_lim)%Z -> atoi (43 :: d) = Some (digits_val 0 d).
+Proof. intros d A L. unfold atoi. simpl (43 =? 43). cbv iota. unfold atoi_u. rewrite A. apply Z.ltb_lt in L. rewrite L. reflexivity. Qed.
+
+Lemma all_digits_in : forall s c, In c s -> is_digit c = false -> all_digits s = false.
+Proof.
+  intros s c Hi Hc. destruct s as [|a s]; [destruct Hi|]. unfold all_digits.
+  destruct (forallb is_digit (a :: s)) eqn:F; auto. rewrite forallb_forall in F. rewrite (F c Hi) in Hc. discriminate.
+Qed.
+
+Lemma atoi_nondigit : forall s c, In c s -> is_digit c = false -> (hd 0 s = c -> (c =? 43) = false /\ (c =? 45) = false) ->
+  (forall r, s = hd 0 s :: r -> hd 0 s <> c -> In c r) -> atoi s = None.
+Proof.
+  intros s c Hi Hc Hh Ht. destruct s as [|a r]; [destruct Hi|]. simpl in Hh.
+  assert (As : all_digits (a :: r) = false) by (eapply all_digits_in; eauto).
+  unfold atoi, atoi_u. rewrite As.
+  destruct (N.eq_dec a c) as [->|Ne].
+  - destruct (Hh eq_refl) as [-> ->]. reflexivity.
+  - assert (Hr : In c r) by (apply (Ht r eq_refl); simpl; auto).
+    rewrite (all_digits_in r c Hr Hc). destruct (a =? 43); [reflexivity|]. destruct (a =? 45); reflexivity.
+Qed.
+
+Lemma span_digits_app : forall d suf, forallb is_digit d = true -> (match suf with [] => True | c :: _ => is_digit c = false end) ->
+  span_digits (d ++ suf) = (d, suf).
+Proof.
+  induction d as [|c d IH]; intros suf A S; cbn [app span_digits].
+  - destruct suf as [|c suf]; [reflexivity|]. cbn [span_digits]. rewrite S. reflexivity.
+  - cbn [forallb] in A. apply andb_prop in A. destruct A as [Dc A]. rewrite Dc. rewrite (IH suf A S). reflexivity.
+Qed.
+
+Lemma find_tx_prefix : forall pre d suf, (forall c, In c pre -> c <> 84) -> all_digits d = true ->
+  (match suf with [] => True | c :: _ => is_digit c = false end) ->
+  find_tx (pre ++ 84 :: 88 :: 58 :: d ++ suf) = Some d.
+Proof.
+  induction pre as [|c pre IH]; intros d suf Hp A S.
+  - cbn [app find_tx]. change (84 =? 84) with true. cbv iota. change ((88 =? 88) && (58 =? 58))%bool with true. cbv iota.
+    destruct d as [|c d]; [discriminate|]. destruct (all_digits_cons _ _ A) as [Dc Dr].
+    rewrite (span_digits_app (c :: d) suf); [reflexivity| |exact S]. cbn [forallb]. rewrite Dc, Dr. reflexivity.
+  - cbn [app find_tx]. assert (E : (c =? 84) = false) by (apply N.eqb_neq; apply Hp; left; auto). rewrite E.
+    apply IH; auto. intros c' Hc'. apply Hp; right; auto.
+Qed.
+
+Lemma forms_agree : forall t d, all_digits d = true -> (digits_val 0 d < int_lim)%Z ->
+  taxon_of t (FStr d) = taxon_of t (FInt (digits_val 0 d)) /\
+  taxon_of t (FStr (43 :: d)) = taxon_of t (FInt (digits_val 0 d)) /\
+  (forall pre suf, (forall c, In c pre -> c <> 84) -> (match suf with [] => True | c :: _ => is_digit c = false end) ->
+     taxon_of t (FStr (pre ++ 84 :: 88 :: 58 :: d ++ suf)) = taxon_of t (FInt (digits_val 0 d))) /\
+  taxon_of t FOther = resolve t 0.
+Proof.
+  intros t d A L. unfold taxon_of, form_taxid. rewrite (atoi_digits d A L), (atoi_plus d A L).
+  split; [reflexivity|]. split; [reflexivity|]. split; [|reflexivity].
+  intros pre suf Hp S.
+  assert (An : atoi (pre ++ 84 :: 88 :: 58 :: d ++ suf) = None).
+  { apply (atoi_nondigit _ 84).
+    - apply in_or_app; right; left; auto.
+    - reflexivity.
+    - intros _. split; reflexivity.
+    - intros r E Hh. destruct pre as [|a pre]; simpl in *; [congruence|]. inversion E; subst. apply in_or_app; right; left; auto. }
+  rewrite An, (find_tx_prefix pre d suf Hp A S). unfold clamp. apply Z.ltb_lt in L. rewrite L. reflexivity.
+Qed.
+
+Open Scope Z_scope.
+(** ** The descent read on the TRIE of the root-first lineages: after following the prefix [pi], the entries left are
+    those whose lineage is comparable with [pi] (one is a prefix of the other), cut after [pi]. *)
+Fixpoint cmp (pi p : list N) : bool :=
+  match pi, p with
+  | [], _ => true
+  | _, [] => true
+  | a :: pi', b :: p' => ((a =? b)%N && cmp pi' p')%bool
+  end.
+Fixpoint is_pre (s p : list N) : bool :=
+  match s, p with
+  | [], _ => true
+  | _ :: _, [] => false
+  | a :: s', b :: p' => ((a =? b)%N && is_pre s' p')%bool
+  end.
+Definition st (pi : list N) (ts0 : list wt) : list wt :=
+  map (fun e : wt => (skipn (length pi) (fst e), snd e)) (filter (fun e : wt => cmp pi (fst e)) ts0).
+(** weight of the lineages comparable with [pi] / of the lineages that start with [s] *)
+Definition cmpw (pi : list N) (ts0 : list wt) : Z := total (filter (fun e : wt => cmp pi (fst e)) ts0).
+Definition pw (s : list N) (ts0 : list wt) : Z := total (filter (fun e : wt => is_pre s (fst e)) ts0).
+
+Lemma is_pre_snoc : forall pi h p, is_pre (pi ++ [h]) p =
+  (cmp pi p && match skipn (length pi) p with x :: _ => (x =? h)%N | [] => false end)%bool.
+Proof.
+  induction pi as [|a pi IH]; intros h p; simpl.
+  - destruct p as [|b p]; [reflexivity|]. simpl. rewrite andb_true_r. apply N.eqb_sym.
+  - destruct p as [|b p]; [reflexivity|]. rewrite IH. destruct (a =? b)%N; reflexivity.
+Qed.
+
+Lemma cmp_snoc : forall pi h p, cmp (pi ++ [h]) p =
+  (cmp pi p && match skipn (length pi) p with x :: _ => (x =? h)%N | [] => true end)%bool.
+Proof.
+  induction pi as [|a pi IH]; intros h p; simpl.
+  - destruct p as [|b p]; [reflexivity|]. simpl. destruct p; rewrite ?andb_true_r; apply N.eqb_sym.
+  - destruct p as [|b p]; [reflexivity|]. rewrite IH. destruct (a =? b)%N; reflexivity.
+Qed.
+
+Lemma skipn_snoc : forall (pi : list N) h (p : list N), skipn (length (pi ++ [h])) p = tl (skipn (length pi) p).
+Proof.
+  induction pi as [|a pi IH]; intros h p; simpl.
+  - destruct p; reflexivity.
+  - destruct p as [|b p]; [reflexivity|]. apply IH.
+Qed.
+
+Lemma total_st : forall pi ts0, total (st pi ts0) = cmpw pi ts0.
+Proof.
+  intros pi ts0. unfold st, cmpw. induction (filter (fun e : wt => cmp pi (fst e)) ts0) as [|e l IH]; simpl; [reflexivity|]. rewrite IH. reflexivity.
+Qed.
+
+Lemma hw_st : forall pi h ts0, head_weight h (st pi ts0) = pw (pi ++ [h]) ts0.
+Proof.
+  intros pi h ts0. unfold st, pw. induction ts0 as [|[p w] l IH]; [reflexivity|].
+  cbn [filter fst]. rewrite is_pre_snoc. destruct (cmp pi p); cbn [andb].
+  - cbn [map]. rewrite hw_cons. cbn [fst snd]. destruct (skipn (length pi) p) as [|x r].
+    + exact IH.
+    + destruct (x =? h)%N; [rewrite total_cons; cbn [snd]; rewrite IH; reflexivity|exact IH].
+  - exact IH.
+Qed.
+
+Lemma next_st : forall pi h ts0, next_ts (st pi ts0) (Some h) = st (pi ++ [h]) ts0.
+Proof.
+  intros pi h ts0. unfold next_ts, st. induction ts0 as [|[p w] l IH]; [reflexivity|].
+  cbn [filter fst]. rewrite cmp_snoc. destruct (cmp pi p); cbn [andb].
+  - cbn [map filter]. unfold keep at 1. cbn [fst]. destruct (skipn (length pi) p) as [|x r] eqn:E.
+    + cbn [map]. rewrite IH. unfold strip at 1. cbn [fst snd]. rewrite skipn_snoc, E. reflexivity.
+    + destruct (x =? h)%N; [|exact IH]. cbn [map]. rewrite IH. unfold strip at 1. cbn [fst snd]. rewrite skipn_snoc, E. reflexivity.
+  - exact IH.
+Qed.
+
+Section Trie.
+Variable R : Type.
+Variable sc : score R.
+Variable ts0 : list wt.
+(** the threshold is positive: a null share fails the test (for the scores the loop can reach: [Inv]) *)
+Variable Inv : R -> Prop.
+Hypothesis inv_zero : Inv (s_zero sc).
+Hypothesis inv_mul : forall r w tt, Inv r -> 0 <= w -> 0 < tt -> Inv (s_mul sc r w tt).
+Hypothesis ge_zero : s_ge sc (s_zero sc) = false.
+Hypothesis ge_null : forall r tt, Inv r -> 0 < tt -> s_ge sc (s_mul sc r 0 tt) = false.
+
+Definition trie_max (pi : list N) (M : Z) : Prop :=
+  0 <= M /\ (forall h, pw (pi ++ [h]) ts0 <= M) /\ (M = 0 \/ exists h, M = pw (pi ++ [h]) ts0).
+Definition trie_r (pi : list N) (M : Z) (r : R) : R :=
+  if 0 <? cmpw pi ts0 then s_mul sc r M (cmpw pi ts0) else s_zero sc.
+
+(** the descent as a walk in the trie: at the node [pi] the share of the heaviest child is [M / cmpw pi];
+    while the cumulated share passes the threshold, go to A heaviest child *)
+Inductive trie_desc : list N -> R -> option N -> option N * R -> Prop :=
+| td_stop : forall pi r tmax M, trie_max pi M -> s_ge sc (trie_r pi M r) = false -> trie_desc pi r tmax (tmax, r)
+| td_down : forall pi r tmax M h res, trie_max pi M -> s_ge sc (trie_r pi M r) = true ->
+    0 < M -> pw (pi ++ [h]) ts0 = M -> trie_desc (pi ++ [h]) (trie_r pi M r) (Some h) res -> trie_desc pi r tmax res.
+
+Lemma hw_nonhead : forall h ts, ~ In h (heads ts) -> head_weight h ts = 0.
+Proof.
+  intros h ts; induction ts as [|[p w] ts IH]; intros H; [reflexivity|]. rewrite hw_cons. cbn [fst snd].
+  destruct p as [|a r].
+  - apply IH. intros Hi. apply H. simpl. exact Hi.
+  - assert (Ha : a <> h). { intros ->. apply H. apply heads_In. exists (h :: r, w), r. split; [left|]; auto. }
+    apply N.eqb_neq in Ha. rewrite Ha. apply IH. intros Hi. apply H. apply heads_In. apply heads_In in Hi.
+    destruct Hi as [e [r' [Hi Hf]]]. exists e, r'. split; [right|]; auto.
+Qed.
+
+Lemma trie_max_maxw : forall pi, trie_max pi (maxw (st pi ts0)).
+Proof.
+  intros pi. destruct (maxw_is (st pi ts0)) as [[M0 [M1 M2]] _]. split; [auto|]. split.
+  - intros h. rewrite <- hw_st. destruct (in_dec N.eq_dec h (heads (st pi ts0))) as [Hi|Hn].
+    + apply heads_In in Hi. destruct Hi as [e [r [Hi Hf]]]. eapply M1; eauto.
+    + rewrite (hw_nonhead _ _ Hn). exact M0.
+  - destruct M2 as [->|[h [_ E]]]; [left; auto|right]. exists h. rewrite <- hw_st. exact E.
+Qed.
+
+Lemma next_r_st : forall pi r, next_r sc (st pi ts0) r = trie_r pi (maxw (st pi ts0)) r.
+Proof. intros pi r. unfold next_r, trie_r. rewrite total_st. reflexivity. Qed.
+
+Lemma inv_trie_r : forall pi M r, Inv r -> 0 <= M -> Inv (trie_r pi M r).
+Proof.
+  intros pi M r Hr HM. unfold trie_r. destruct (0 <? cmpw pi ts0) eqn:L; [|exact inv_zero].
+  apply inv_mul; auto. apply Z.ltb_lt; exact L.
+Qed.
+
+Lemma wld_all_trie : forall fuel pi r tmax l, Inv r -> wld_all sc fuel (st pi ts0) r tmax = Some l ->
+  forall x, In x l -> trie_desc pi r tmax x.
+Proof.
+  induction fuel as [|f IH]; intros pi r tmax l Hr H x Hx; simpl in H; [discriminate|].
+  rewrite next_r_st in H. pose proof (trie_max_maxw pi) as TM. set (M := maxw (st pi ts0)) in *.
+  destruct (s_ge sc (trie_r pi M r)) eqn:G.
+  - pose proof (fold_ocat _ _ (fun tm => wld_all sc f (next_ts (st pi ts0) tm) (trie_r pi M r) tm) (cands (st pi ts0))) as FO.
+    simpl in FO. rewrite H in FO. destruct FO as [_ F2]. apply F2 in Hx. destruct Hx as [tm [l' [Hc [Hl Hx]]]].
+    apply in_cands in Hc. destruct tm as [h|].
+    + destruct Hc as [Mp [_ Hw]]. rewrite next_st in Hl. fold M in Mp, Hw.
+      apply (td_down pi r tmax M h x TM G Mp); [rewrite <- hw_st; exact Hw|]. eapply IH; eauto.
+      apply inv_trie_r; auto. lia.
+    + exfalso. fold M in Hc. destruct TM as [T0 _]. assert (M = 0) by lia.
+      unfold trie_r in G. rewrite H0 in G. destruct (0 <? cmpw pi ts0) eqn:Lc; [rewrite ge_null in G by (auto; apply Z.ltb_lt; exact Lc)|rewrite ge_zero in G]; discriminate.
+  - inversion H; subst. destruct Hx as [<-|[]]. eapply td_stop; eauto.
+Qed.
+End Trie.
+
+(** ** ... and on the TREE: clade weights *)
+Definition ancb (t : tax) (x v : N) : bool := match path t x with Some p => mem v p | None => false end.
+Fixpoint wsumf (f : N -> bool) (d : list (N * Z)) : Z :=
+  match d with [] => 0 | (x, w) :: d' => if f x then w + wsumf f d' else wsumf f d' end.
+(** weight of the merged taxa inside the clade of v / comparable with a (inside its clade or on its lineage) *)
+Definition cladew (t : tax) (d : list (N * Z)) (v : N) : Z := wsumf (fun x => ancb t x v) d.
+Definition compw (t : tax) (d : list (N * Z)) (a : N) : Z := wsumf (fun x => (ancb t x a || ancb t a x)%bool) d.
+Definition child (t : tax) (c a : N) : Prop := c <> a /\ exists rk, get t c = Some (a, rk).
+
+Lemma ancb_anc : forall t x v, ancb t x v = true <-> anc t x v.
+Proof.
+  intros t x v. unfold ancb, anc. split.
+  - destruct (path t x) as [p|] eqn:Hp; [|discriminate]. intros H. exists p. split; [apply path_sound; auto|apply mem_In; auto].
+  - intros [p [Hp Hin]]. rewrite (path_complete _ _ _ Hp). apply mem_In; auto.
+Qed.
+
+Lemma wsumf_ext : forall f g d, (forall e, In e d -> f (fst e) = g (fst e)) -> wsumf f d = wsumf g d.
+Proof.
+  intros f g d; induction d as [|[x w] d IH]; intros H; simpl; [reflexivity|].
+  pose proof (H (x, w) (or_introl eq_refl)) as E. cbn [fst] in E. rewrite E. rewrite IH; [reflexivity|]. intros e He; apply H; right; auto.
+Qed.
+
+Lemma pw_wentry : forall t s d, pw s (map (wentry t) d) = wsumf (fun x => is_pre s (rp t x)) d.
+Proof.
+  intros t s d. unfold pw. induction d as [|[x w] d IH]; [reflexivity|]. cbn [map filter wsumf]. unfold wentry at 1. cbn [fst snd].
+  destruct (is_pre s (rp t x)); [rewrite total_cons; cbn [snd]; rewrite IH; reflexivity|exact IH].
+Qed.
+
+Lemma cmpw_wentry : forall t s d, cmpw s (map (wentry t) d) = wsumf (fun x => cmp s (rp t x)) d.
+Proof.
+  intros t s d. unfold cmpw. induction d as [|[x w] d IH]; [reflexivity|]. cbn [map filter wsumf]. unfold wentry at 1. cbn [fst snd].
+  destruct (cmp s (rp t x)); [rewrite total_cons; cbn [snd]; rewrite IH; reflexivity|exact IH].
+Qed.
+
+Lemma is_pre_iff : forall s p, is_pre s p = true <-> exists q, p = s ++ q.
+Proof.
+  induction s as [|a s IH]; intros p; simpl.
+  - split; [intros _; exists p; reflexivity|auto].
+  - destruct p as [|b p]; [split; [discriminate|intros [q E]; discriminate]|].
+    split.
+    + intros H. apply andb_prop in H. destruct H as [E H]. apply N.eqb_eq in E. subst b. apply IH in H. destruct H as [q ->]. exists q; reflexivity.
+    + intros [q E]. inversion E; subst. rewrite N.eqb_refl. apply IH. exists q; reflexivity.
+Qed.
+
+Lemma cmp_iff : forall s p, cmp s p = true <-> is_pre s p = true \/ is_pre p s = true.
+Proof.
+  induction s as [|a s IH]; intros p; simpl.
+  - tauto.
+  - destruct p as [|b p]; simpl; [tauto|]. destruct (a =? b)%N eqn:E; simpl.
+    + rewrite IH. apply N.eqb_eq in E; subst. rewrite N.eqb_refl. simpl. tauto.
+    + rewrite (N.eqb_sym b a), E. simpl. split; [discriminate|intros [H|H]; discriminate].
+Qed.
+
+Lemma rp_path : forall t x p, is_path t x p -> rp t x = rev p.
+Proof. intros t x p H. unfold rp. rewrite (path_complete _ _ _ H). reflexivity. Qed.
+
+(** the lineage of c is a prefix of the lineage of x iff c is an ancestor-or-self of x *)
+Lemma is_pre_rp : forall t x c px pc, is_path t x px -> is_path t c pc -> (is_pre (rp t c) (rp t x) = ancb t x c).
+Proof.
+  intros t x c px pc Hx Hc. rewrite (rp_path _ _ _ Hx), (rp_path _ _ _ Hc).
+  destruct (ancb t x c) eqn:A.
+  - apply ancb_anc in A. destruct A as [p [Hp Hin]]. rewrite (is_path_fun _ _ _ Hp _ Hx) in Hin.
+    destruct (in_split _ _ Hin) as [l [s E]]. subst px.
+    pose proof (is_path_suffix _ _ _ _ _ Hx) as Hc'. rewrite (is_path_fun _ _ _ Hc _ Hc').
+    apply is_pre_iff. exists (rev l). rewrite rev_app_distr. reflexivity.
+  - destruct (is_pre (rev pc) (rev px)) eqn:P; [|reflexivity]. exfalso.
+    apply is_pre_iff in P. destruct P as [q E]. assert (E' : px = rev q ++ pc).
+    { rewrite <- (rev_involutive px), E, rev_app_distr, rev_involutive. reflexivity. }
+    assert (A' : ancb t x c = true). { apply ancb_anc. exists px. split; auto. rewrite E'. apply in_or_app; right.
+      destruct (is_path_head _ _ _ Hc) as [l ->]. left; auto. }
+    congruence.
+Qed.
+
+Section Tree.
+Variable R : Type.
+Variable sc : score R.
+Variable t : tax.
+Variable d : list (N * Z).
+Hypothesis W : wf_tax t.
+Hypothesis Hd : forall e, In e d -> present t (fst e).
+
+Definition tree_max (a : N) (M : Z) : Prop :=
+  0 <= M /\ (forall c, child t c a -> cladew t d c <= M) /\ (M = 0 \/ exists c, child t c a /\ M = cladew t d c).
+Definition tree_r (a : N) (M : Z) (r : R) : R :=
+  if 0 <? compw t d a then s_mul sc r M (compw t d a) else s_zero sc.
+
+(** the descent on the tree: at taxon a, M = the heaviest clade among the children of a, the share is M over the weight of
+    the merged taxa comparable with a; while the cumulated share passes the threshold, go down to A heaviest child *)
+Inductive tree_desc : N -> R -> option N * R -> Prop :=
+| tr_stop : forall a r M, tree_max a M -> s_ge sc (tree_r a M r) = false -> tree_desc a r (Some a, r)
+| tr_down : forall a r M c res, tree_max a M -> s_ge sc (tree_r a M r) = true -> 0 < M -> child t c a -> cladew t d c = M ->
+    tree_desc c (tree_r a M r) res -> tree_desc a r res.
+
+Let ts0 := map (wentry t) d.
+
+Lemma pw_clade : forall c pc, is_path t c pc -> pw (rp t c) ts0 = cladew t d c.
+Proof.
+  intros c pc Hc. unfold ts0. rewrite pw_wentry. unfold cladew. apply wsumf_ext. intros e He.
+  destruct (Hd e He) as [v Hv]. destruct (wf_reach _ W _ _ Hv) as [px Hx]. eapply is_pre_rp; eauto.
+Qed.
+
+Lemma cmpw_comp : forall a pa, is_path t a pa -> cmpw (rp t a) ts0 = compw t d a.
+Proof.
+  intros a pa Ha. unfold ts0. rewrite cmpw_wentry. unfold compw. apply wsumf_ext. intros e He.
+  destruct (Hd e He) as [v Hv]. destruct (wf_reach _ W _ _ Hv) as [px Hx].
+  rewrite <- (is_pre_rp t (fst e) a px pa Hx Ha), <- (is_pre_rp t a (fst e) pa px Ha Hx).
+  destruct (cmp (rp t a) (rp t (fst e))) eqn:C.
+  - apply cmp_iff in C. symmetry. apply orb_true_iff. exact C.
+  - symmetry. apply orb_false_iff. split.
+    + destruct (is_pre (rp t a) (rp t (fst e))) eqn:P; auto. assert (cmp (rp t a) (rp t (fst e)) = true) by (apply cmp_iff; auto). congruence.
+    + destruct (is_pre (rp t (fst e)) (rp t a)) eqn:P; auto. assert (cmp (rp t a) (rp t (fst e)) = true) by (apply cmp_iff; auto). congruence.
+Qed.
+
+Lemma child_rp : forall c a pa, is_path t a pa -> child t c a -> is_path t c (c :: pa) /\ rp t c = rp t a ++ [c].
+Proof.
+  intros c a pa Ha [Hne [rk G]]. assert (Hc : is_path t c (c :: pa)) by (econstructor; eauto).
+  split; auto. rewrite (rp_path _ _ _ Hc), (rp_path _ _ _ Ha). reflexivity.
+Qed.
+
+(** a lineage that continues the lineage of a with h makes h a child of a *)
+Lemma pw_pos_child : forall a pa h, is_path t a pa -> pw (rp t a ++ [h]) ts0 <> 0 -> child t h a.
+Proof.
+  intros a pa h Ha Hp. unfold ts0 in Hp. rewrite pw_wentry in Hp.
+  assert (Hex : exists e, In e d /\ is_pre (rp t a ++ [h]) (rp t (fst e)) = true).
+  { clear -Hp. induction d as [|[x w] l IH]; simpl in Hp; [congruence|].
+    destruct (is_pre (rp t a ++ [h]) (rp t x)) eqn:P; [exists (x, w); split; [left|]; auto|].
+    destruct (IH Hp) as [e [He Pe]]. exists e; split; [right|]; auto. }
+  destruct Hex as [e [He P]]. destruct (Hd e He) as [v Hv]. destruct (wf_reach _ W _ _ Hv) as [px Hx].
+  rewrite (rp_path _ _ _ Hx), (rp_path _ _ _ Ha) in P. apply is_pre_iff in P. destruct P as [q E].
+  assert (E' : px = rev q ++ h :: pa).
+  { rewrite <- (rev_involutive px), E, !rev_app_distr, rev_involutive. reflexivity. }
+  rewrite E' in Hx. apply is_path_suffix in Hx.
+  destruct (is_path_head _ _ _ Ha) as [la Ela]. subst pa.
+  inversion Hx as [? ? G E1 | ? p rk l G Hne Hp' ]; subst.
+  destruct (is_path_head _ _ _ Hp') as [l' El']. inversion El'; subst. split; eauto.
+Qed.
+
+Lemma tree_max_of_trie : forall a pa M, is_path t a pa -> trie_max ts0 (rp t a) M -> tree_max a M.
+Proof.
+  intros a pa M Ha [M0 [M1 M2]]. split; [auto|]. split.
+  - intros c Hc. destruct (child_rp c a pa Ha Hc) as [Hpc Erp]. rewrite <- (pw_clade c _ Hpc), Erp. apply M1.
+  - destruct M2 as [->|[h E]]; [left; auto|]. destruct (Z.eq_dec M 0) as [->|Hne]; [left; auto|right].
+    assert (Hc : child t h a) by (eapply pw_pos_child; eauto; congruence).
+    exists h. split; auto. destruct (child_rp h a pa Ha Hc) as [Hpc Erp]. rewrite <- (pw_clade h _ Hpc), Erp. exact E.
+Qed.
+
+Lemma tree_of_trie : forall pi r tmax res, trie_desc R sc ts0 pi r tmax res ->
+  forall a pa, is_path t a pa -> pi = rp t a -> tmax = Some a -> tree_desc a r res.
+Proof.
+  intros pi r tmax res H; induction H as [pi r tmax M TM G | pi r tmax M h res TM G Mp Hw Hrec IH]; intros a pa Ha -> ->.
+  - apply (tr_stop a r M); [eapply tree_max_of_trie; eauto|]. unfold tree_r. rewrite <- (cmpw_comp a pa Ha). exact G.
+  - assert (Hc : child t h a) by (eapply pw_pos_child; eauto; lia).
+    destruct (child_rp h a pa Ha Hc) as [Hpc Erp].
+    apply (tr_down a r M h res); auto.
+    + eapply tree_max_of_trie; eauto.
+    + unfold tree_r. rewrite <- (cmpw_comp a pa Ha). exact G.
+    + rewrite <- (pw_clade h _ Hpc), Erp. exact Hw.
+    + unfold tree_r. rewrite <- (cmpw_comp a pa Ha). apply (IH h (h :: pa)); auto.
+Qed.
+End Tree.
+
+Lemma st_nil : forall ts0, st [] ts0 = ts0.
+Proof.
+  intros ts0. unfold st. induction ts0 as [|[p w] l IH]; [reflexivity|]. cbn [filter cmp fst map length skipn snd] in *. rewrite IH. reflexivity.
+Qed.
+
+(** Taxonomy.LCA(sequence, threshold > 0) on a well-formed taxonomy, for any arithmetic of rmax: every outcome of the loop is
+    either the initial answer (the very first test fails) or an outcome of the descent on the tree from the root *)
+Lemma wlca_descent_on_tree : forall R (sc : score R) (Inv : R -> Prop) t d, wf_tax t -> (forall e, In e d -> present t (fst e)) ->
+  Inv (s_zero sc) -> (forall r w tt, Inv r -> 0 <= w -> 0 < tt -> Inv (s_mul sc r w tt)) ->
+  s_ge sc (s_zero sc) = false -> (forall r tt, Inv r -> 0 < tt -> s_ge sc (s_mul sc r 0 tt) = false) ->
+  forall fuel r0 tmax l, Inv r0 -> wld_all sc fuel (map (wentry t) d) r0 tmax = Some l -> forall x, In x l ->
+    x = (tmax, r0) \/
+    exists root rk, get t root = Some (root, rk) /\ 0 < wsumf (fun _ => true) d /\
+       tree_desc R sc t d root (s_mul sc r0 (wsumf (fun _ => true) d) (wsumf (fun _ => true) d)) x.
+Proof.
+  intros R sc Inv t d W Hd I0 Im G0 Gn fuel r0 tmax l Hr0 H x Hx.
+  rewrite <- (st_nil (map (wentry t) d)) in H.
+  pose proof (wld_all_trie R sc (map (wentry t) d) Inv I0 Im G0 Gn fuel [] r0 tmax l Hr0 H x Hx) as T.
+  remember ([] : list N) as p0 eqn:Ep. destruct T as [pi r tm M TM G | pi r tm M h res TM G Mp Hw Hrec]; subst pi; [left; reflexivity|right].
+  cbn [app] in Hw, Hrec. rename r into r0, tm into tmax, res into x.
+  (* some lineage starts with h: h is the root *)
+  assert (Hex : exists e, In e d /\ is_pre [h] (rp t (fst e)) = true).
+  { rewrite pw_wentry in Hw. clear -Hw Mp. induction d as [|[y w] l' IH]; cbn [wsumf] in Hw; [lia|].
+    destruct (is_pre [h] (rp t y)) eqn:P; [exists (y, w); split; [left|]; auto|].
+    destruct (IH Hw) as [e [He Pe]]. exists e; split; [right|]; auto. }
+  destruct Hex as [e [He P]]. destruct (Hd e He) as [v Hv]. destruct (wf_reach _ W _ _ Hv) as [px Hpx].
+  destruct (rp_head _ _ _ Hpx) as [z [lz [rk [_ [Erev Gz]]]]].
+  rewrite (rp_path _ _ _ Hpx), Erev in P. simpl in P. rewrite andb_true_r in P. apply N.eqb_eq in P. subst z.
+  assert (Hroot : is_path t h [h]) by (econstructor; eauto).
+  assert (AllRoot : forall e', In e' d -> exists l', rp t (fst e') = h :: l').
+  { intros e' He'. destruct (Hd e' He') as [v' Hv']. destruct (wf_reach _ W _ _ Hv') as [p' Hp'].
+    destruct (rp_head _ _ _ Hp') as [z' [lz' [rk' [_ [Erev' Gz']]]]]. rewrite (rp_path _ _ _ Hp'), Erev'.
+    destruct (wf_root _ W) as [rt [_ U]]. rewrite (U _ _ Gz'), <- (U _ _ Gz). eauto. }
+  assert (EM : M = wsumf (fun _ => true) d).
+  { rewrite <- Hw, pw_wentry. apply wsumf_ext. intros e' He'. destruct (AllRoot e' He') as [l' ->]. simpl. rewrite N.eqb_refl. reflexivity. }
+  assert (EC : cmpw [] (map (wentry t) d) = wsumf (fun _ => true) d).
+  { rewrite cmpw_wentry. apply wsumf_ext. intros; reflexivity. }
+  exists h, rk. split; auto. split; [lia|].
+  assert (ER : trie_r R sc (map (wentry t) d) [] M r0 = s_mul sc r0 (wsumf (fun _ => true) d) (wsumf (fun _ => true) d)).
+  { unfold trie_r. rewrite EC, <- EM. assert (L : (0 <? M) = true) by (apply Z.ltb_lt; auto). rewrite L. reflexivity. }
+  rewrite <- ER. apply (tree_of_trie R sc t d W Hd [h] _ (Some h) x Hrec h [h] Hroot); [|reflexivity].
+  rewrite (rp_path _ _ _ Hroot). reflexivity.
+Qed.
+
+Close Scope Z_scope.
+
+(** the characterisation holds unconditionally for exact rational arithmetic with a positive threshold tn/td, and at threshold 1.0 *)
+Definition q_inv (r : Z * Z) : Prop := (0 <= fst r /\ 0 < snd r)%Z.
+
+Lemma wlca_descent_on_tree_q : forall tn td t d, (0 < tn)%Z -> (0 < td)%Z -> wf_tax t -> (forall e, In e d -> present t (fst e)) ->
+  forall fuel tmax l, wld_all (sc_q tn td) fuel (map (wentry t) d) (1, 1)%Z tmax = Some l -> forall x, In x l ->
+    x = (tmax, (1, 1)%Z) \/
+    exists root rk, get t root = Some (root, rk) /\ (0 < wsumf (fun _ => true) d)%Z /\
+       tree_desc _ (sc_q tn td) t d root (s_mul (sc_q tn td) (1, 1)%Z (wsumf (fun _ => true) d) (wsumf (fun _ => true) d)) x.
+Proof.
+  intros tn td t d Htn Htd W Hd fuel tmax l H x Hx.
+  apply (wlca_descent_on_tree _ (sc_q tn td) q_inv t d W Hd) with (fuel := fuel) (l := l); auto.
+  - unfold q_inv; simpl; lia.
+  - intros [n dd] w tt [I1 I2] Hw Ht. unfold q_inv in *; simpl in *. split; [apply Z.mul_nonneg_nonneg; lia|apply Z.mul_pos_pos; lia].
+  - simpl. apply Z.leb_gt. lia.
+  - intros [n dd] tt [I1 I2] Ht. simpl in *. apply Z.leb_gt. rewrite Z.mul_0_r, Z.mul_0_l.
+    apply Z.mul_pos_pos; [lia|apply Z.mul_pos_pos; lia].
+  - unfold q_inv; simpl; lia.
+Qed.
+
+Lemma wlca_descent_on_tree_one : forall t d, wf_tax t -> (forall e, In e d -> present t (fst e)) ->
+  forall fuel tmax l, wld_all sc_one fuel (map (wentry t) d) true tmax = Some l -> forall x, In x l ->
+    x = (tmax, true) \/
+    exists root rk, get t root = Some (root, rk) /\ (0 < wsumf (fun _ => true) d)%Z /\
+       tree_desc _ sc_one t d root (s_mul sc_one true (wsumf (fun _ => true) d) (wsumf (fun _ => true) d)) x.
+Proof.
+  intros t d W Hd fuel tmax l H x Hx.
+  apply (wlca_descent_on_tree _ sc_one (fun _ => True) t d W Hd) with (fuel := fuel) (l := l); auto.
+  intros r tt _ Ht. simpl. destruct tt; try discriminate; try reflexivity. apply andb_false_r.
+Qed.
+
+(** ** Threshold 1.0 with counts >= 0 (zero counts included): the LCA of the taxa designated by a key of positive count *)
+Lemma wsum_ge : forall t m k w x, (forall k' w', In (k', w') m -> (0 <= w')%Z) -> In (k, w) m -> resolve t k = Some x -> (w <= wsum t m x)%Z.
+Proof.
+  intros t m k w x; induction m as [|[k0 w0] m IH]; intros Hn Hi Rk; [destruct Hi|].
+  assert (N0 : (0 <= w0)%Z) by (apply (Hn k0 w0); left; auto).
+  assert (Nm : forall k' w', In (k', w') m -> (0 <= w')%Z) by (intros k' w' H; apply (Hn k' w'); right; auto).
+  pose proof (wsum_nonneg t m x Nm) as P. simpl. destruct Hi as [E|Hi].
+  - inversion E; subst. rewrite Rk, N.eqb_refl. lia.
+  - specialize (IH Nm Hi Rk). destruct (resolve t k0) as [y|]; [destruct (y =? x)|]; lia.
+Qed.
+
+Lemma wsum_pos_ex : forall t m x, (0 < wsum t m x)%Z -> exists k w, In (k, w) m /\ resolve t k = Some x /\ (0 < w)%Z.
+Proof.
+  intros t m x; induction m as [|[k0 w0] m IH]; intros H; simpl in H; [lia|].
+  destruct (resolve t k0) as [y|] eqn:R0.
+  - destruct (y =? x) eqn:E.
+    + apply N.eqb_eq in E; subst y. destruct (Z_lt_le_dec 0 w0) as [L|L].
+      * exists k0, w0. split; [left|]; auto.
+      * destruct IH as [k [w [Hi [Rk Pw]]]]; [lia|]. exists k, w. split; [right|]; auto.
+    + destruct (IH H) as [k [w [Hi [Rk Pw]]]]. exists k, w. split; [right|]; auto.
+  - destruct (IH H) as [k [w [Hi [Rk Pw]]]]. exists k, w. split; [right|]; auto.
+Qed.
+
+Lemma wlca_char_nonneg : forall t m, wf_tax t -> alias_ok t ->
+  (forall k w, In (k, w) m -> (0 <= w)%Z /\ resolve t k <> None) -> (exists k w, In (k, w) m /\ (0 < w)%Z) ->
+  exists z, wlca t m = Some (Some z) /\ present t z /\
+    forall u, anc t z u <-> forall k w, In (k, w) m -> (0 < w)%Z -> exists x, resolve t k = Some x /\ anc t x u.
+Proof.
+  intros t m W A Hm [k0 [w0 [Hk0 Pw0]]].
+  assert (Hn : forall k w, In (k, w) m -> (0 <= w)%Z) by (intros k w H; apply (Hm k w H)).
+  destruct (distribution_total t m [] (fun k w H => proj2 (Hm k w H))) as [d Hd].
+  destruct (distribution_char _ _ _ _ Hd (NoDup_nil _)) as [ND [Mem Wt]].
+  assert (Hdd : forall e, In e d -> present t (fst e) /\ (0 <= snd e)%Z).
+  { intros [x w] He. split; [|eapply distribution_nonneg; eauto].
+    assert (Hx : In x (map fst d)) by (apply in_map_iff; exists (x, w); auto).
+    apply Mem in Hx. destruct Hx as [[]|[k [w1 [Hk Rk]]]]. simpl. eapply resolve_present; eauto. }
+  assert (InD : forall k w x, In (k, w) m -> resolve t k = Some x -> In (x, wsum t m x) d).
+  { intros k w x Hk Rk. apply (accw_in d x _ ND). split; [apply Mem; right; eauto|]. rewrite Wt. simpl. lia. }
+  assert (Hex : exists e, In e d /\ (0 < snd e)%Z).
+  { destruct (Hm _ _ Hk0) as [_ R0]. destruct (resolve t k0) as [x0|] eqn:Rk0; [|congruence].
+    exists (x0, wsum t m x0). split; [eapply InD; eauto|]. simpl. pose proof (wsum_ge t m k0 w0 x0 Hn Hk0 Rk0). lia. }
+  unfold wlca. rewrite Hd.
+  destruct (wlca_nodes_char t d W Hdd Hex (match map (wentry t) d with (h :: _, _) :: _ => Some h | _ => None end)) as [z [Rp [Hw [Pz C]]]].
+  rewrite Rp. exists z. split; auto. split; auto. intros u. rewrite C. split.
+  - intros Hall k w Hk Pw. destruct (Hm _ _ Hk) as [_ Rn]. destruct (resolve t k) as [x|] eqn:Rk; [|congruence].
+    exists x. split; auto. apply (Hall (x, wsum t m x)); [eapply InD; eauto|]. simpl. pose proof (wsum_ge t m k w x Hn Hk Rk). lia.
+  - intros Hall [x w] He Pw. simpl in *. apply (accw_in d x w ND) in He. destruct He as [_ Ew]. rewrite Wt in Ew. simpl in Ew.
+    assert (Pws : (0 < wsum t m x)%Z) by lia. destruct (wsum_pos_ex t m x Pws) as [k [w1 [Hk [Rk Pw1]]]].
+    destruct (Hall k w1 Hk Pw1) as [x' [Rk' Ax]]. congruence.
 Qed.
 
 (** ** Sequence predicates / workers read the lineage of the sequence's taxon *)
@@ -950,7 +2170,7 @@ Lemma predicates_known : forall t s x p, resolve t (seq_taxid s) = Some x -> pat
      require t s rs = zb (forallb (fun r => existsb (has_rank_at t r) p) rs)) /\
   (forall r, rank_listed t r = true ->
      atrank_attr t s r = match find (has_rank_at t r) p with Some z => Z.of_N z | None => (-1)%Z end) /\
-  (forall c y, s_slot s = Some c -> resolve t c = Some y -> slotsub t s = zb (mem y p)).
+  (forall c y, s_slot s = Some c -> taxon_of t c = Some y -> slotsub t s = zb (mem y p)).
 Proof.
   intros t s x p R P. repeat split.
   - unfold restrict. destruct ids; [congruence|]. rewrite H0. rewrite (any_clade_known t s x p cs R P). reflexivity.
@@ -972,28 +2192,163 @@ Proof.
   - unfold ignore. destruct ids; [congruence|]. rewrite H0, (any_clade_unknown t s cs R). reflexivity.
   - intros rs Hne Hl. unfold require. destruct rs as [|r rs]; [congruence|]. rewrite Hl. simpl. rewrite R. reflexivity.
   - intros r Hl. unfold atrank_attr. rewrite Hl, R. reflexivity.
-  - intros c Hs. unfold slotsub. rewrite Hs, R. destruct (resolve t c); reflexivity.
+  - intros c Hs. unfold slotsub. rewrite Hs, R. destruct (taxon_of t c); reflexivity.
 Qed.
 
 (** ** Names: every alternate name listed for a taxon is found by IsNameEqual *)
-Lemma alt_names_in : forall rows x n, In n (alt_names rows x) <-> In (x, n, false) rows.
+Lemma beqb_eq : forall a b, beqb a b = true <-> a = b.
+Proof.
+  induction a as [|x a IH]; destruct b as [|y b]; simpl; split; intros H; try discriminate; auto.
+  - apply andb_prop in H. destruct H as [H1 H2]. apply N.eqb_eq in H1. apply IH in H2. subst; auto.
+  - inversion H; subst. rewrite N.eqb_refl. simpl. apply IH; auto.
+Qed.
+
+Lemma existsb_beqb : forall n l, existsb (beqb n) l = true <-> In n l.
+Proof.
+  intros n l. rewrite existsb_exists. split.
+  - intros [y [Hy E]]. apply beqb_eq in E; subst; auto.
+  - intros H. exists n; split; auto. apply beqb_eq; auto.
+Qed.
+
+Lemma alt_names_in : forall rows x n, In n (alt_names rows x) <-> exists c, In (x, n, c) rows /\ beqb c sci_class = false.
 Proof.
   intros rows x n. unfold alt_names. rewrite in_map_iff. split.
-  - intros [[[k m] b] [E H]]. simpl in E; subst m. apply filter_In in H. destruct H as [H C]. simpl in C.
-    apply andb_prop in C. destruct C as [C1 C2]. apply N.eqb_eq in C2; subst k. destruct b; [discriminate|auto].
-  - intros H. exists (x, n, false). split; auto. apply filter_In. split; auto. simpl. apply N.eqb_refl.
+  - intros [[[k m] c] [E H]]. simpl in E; subst m. apply filter_In in H. destruct H as [H C]. unfold is_sci in C; simpl in C.
+    apply andb_prop in C. destruct C as [C1 C2]. apply N.eqb_eq in C2; subst k. exists c. split; auto.
+    destruct (beqb c sci_class); [discriminate|auto].
+  - intros [c [H C]]. exists (x, n, c). split; auto. apply filter_In. split; auto. unfold is_sci; simpl. rewrite C, N.eqb_refl. reflexivity.
 Qed.
 
 Lemma names_found : forall rows x n sn, sci_name rows x = Some sn ->
-  (name_equal rows x n = Some true <-> (sn = n \/ In (x, n, false) rows)).
+  (name_equal rows x n = Some true <-> (sn = n \/ exists c, In (x, n, c) rows /\ beqb c sci_class = false)).
 Proof.
   intros rows x n sn H. unfold name_equal. rewrite H. split.
   - intros E. inversion E as [E']. apply orb_prop in E'. destruct E' as [E'|E'].
-    + left. apply N.eqb_eq; auto.
-    + right. apply alt_names_in. apply mem_In; auto.
+    + left. apply beqb_eq; auto.
+    + right. apply alt_names_in. apply existsb_beqb; auto.
   - intros [->|Hin]; f_equal.
-    + rewrite N.eqb_refl; reflexivity.
-    + apply orb_true_iff. right. apply mem_In. apply alt_names_in; auto.
+    + replace (beqb n n) with true by (symmetry; apply beqb_eq; auto). reflexivity.
+    + apply orb_true_iff. right. apply existsb_beqb. apply alt_names_in; auto.
+Qed.
+
+(** IsNameMatching, for any regexp oracle [rm]: true iff the pattern matches the scientific name or one of the listed alternate names *)
+Lemma names_matching : forall (P : Type) (rm : P -> bstr -> bool) rows x pat sn, sci_name rows x = Some sn ->
+  (name_matching rm rows x pat = Some true <->
+   (rm pat sn = true \/ exists n c, In (x, n, c) rows /\ beqb c sci_class = false /\ rm pat n = true)).
+Proof.
+  intros P rm rows x pat sn H. unfold name_matching. rewrite H. split.
+  - intros E. injection E as E'. apply orb_prop in E'. destruct E' as [E'|E'].
+    + left; exact E'.
+    + right. apply existsb_exists in E'. destruct E' as [n [Hn Hm]]. apply alt_names_in in Hn. destruct Hn as [c [Hc Hs]]. eauto.
+  - intros [Hs|[n [c [Hin [Hc Hm]]]]]; f_equal; apply orb_true_iff.
+    + left; exact Hs.
+    + right. apply existsb_exists. exists n. split; auto. apply alt_names_in; eauto.
+Qed.
+
+(** the scientific name of a taxon is the name of the LAST row of class "scientific name" for it; none iff no such row *)
+Lemma sci_name_last : forall rows x,
+  match sci_name rows x with
+  | Some sn => exists l1 l2 c, rows = l1 ++ (x, sn, c) :: l2 /\ beqb c sci_class = true /\
+                               forall r, In r l2 -> (is_sci r && (fst (fst r) =? x))%bool = false
+  | None => forall r, In r rows -> (is_sci r && (fst (fst r) =? x))%bool = false
+  end.
+Proof.
+  intros rows x. unfold sci_name.
+  assert (G : forall rows acc,
+    match fold_left (fun acc (r : name_row) => if (is_sci r && (fst (fst r) =? x))%bool then Some (snd (fst r)) else acc) rows acc with
+    | Some sn => (acc = Some sn /\ forall r, In r rows -> (is_sci r && (fst (fst r) =? x))%bool = false) \/
+                 exists l1 l2 c, rows = l1 ++ (x, sn, c) :: l2 /\ beqb c sci_class = true /\
+                               forall r, In r l2 -> (is_sci r && (fst (fst r) =? x))%bool = false
+    | None => acc = None /\ forall r, In r rows -> (is_sci r && (fst (fst r) =? x))%bool = false
+    end).
+  { clear rows. induction rows as [|[[k n] c] rows IH]; intros acc; simpl.
+    - destruct acc; [left|]; split; auto; intros r [].
+    - specialize (IH (if (is_sci (k, n, c) && (k =? x))%bool then Some n else acc)).
+      destruct (fold_left _ rows _) as [sn|] eqn:F.
+      + destruct IH as [[E Hn]|[l1 [l2 [c' [E [Hc Hn]]]]]].
+        * destruct (is_sci (k, n, c) && (k =? x))%bool eqn:C.
+          -- inversion E; subst. right. apply andb_prop in C. destruct C as [C1 C2]. apply N.eqb_eq in C2; subst k.
+             exists [], rows, c. split; auto.
+          -- left. split; auto. intros r [<-|Hr]; auto.
+        * right. exists ((k, n, c) :: l1), l2, c'. subst rows. split; auto.
+      + destruct IH as [E Hn]. destruct (is_sci (k, n, c) && (k =? x))%bool eqn:C; [discriminate|].
+        split; auto. intros r [<-|Hr]; auto. }
+  specialize (G rows None). destruct (fold_left _ rows None) as [sn|].
+  - destruct G as [[E _]|G]; [discriminate|auto].
+  - destruct G; auto.
+Qed.
+
+(** ** One line of names.dmp *)
+Definition no_bar (s : list N) : Prop := forall c, In c s -> c <> 124.
+Definition tight (s : list N) : Prop := match s with [] => True | c :: _ => is_space c = false end /\
+                                        match rev s with [] => True | c :: _ => is_space c = false end.
+
+Lemma split_bar_app : forall a b cur, no_bar a -> split_bar (a ++ 124 :: b) cur = (rev cur ++ a) :: split_bar b [].
+Proof.
+  induction a as [|c a IH]; intros b cur H; cbn [app split_bar].
+  - rewrite N.eqb_refl, app_nil_r. reflexivity.
+  - assert (E : (c =? 124) = false) by (apply N.eqb_neq; apply H; left; auto). rewrite E.
+    rewrite IH by (intros x Hx; apply H; right; auto). cbn [rev]. rewrite <- app_assoc. reflexivity.
+Qed.
+
+Lemma split_bar_last : forall a cur, no_bar a -> split_bar a cur = [rev cur ++ a].
+Proof.
+  induction a as [|c a IH]; intros cur H; cbn [split_bar].
+  - rewrite app_nil_r. reflexivity.
+  - assert (E : (c =? 124) = false) by (apply N.eqb_neq; apply H; left; auto). rewrite E.
+    rewrite IH by (intros x Hx; apply H; right; auto). cbn [rev]. rewrite <- app_assoc. reflexivity.
+Qed.
+
+Lemma ltrim_tight : forall s, match s with [] => True | c :: _ => is_space c = false end -> ltrim s = s.
+Proof. intros [|c r] H; [reflexivity|]. cbn [ltrim]. rewrite H. reflexivity. Qed.
+
+(** trimming removes the tabs NCBI puts around a field *)
+Lemma trim_tabs : forall s (a b : bool), tight s -> trim ((if a then [9] else []) ++ s ++ (if b then [9] else [])) = s.
+Proof.
+  intros s a b [H1 H2]. unfold trim.
+  assert (L1 : ltrim ((if a then [9] else []) ++ s ++ (if b then [9] else [])) = ltrim (s ++ (if b then [9] else []))).
+  { destruct a; reflexivity. }
+  rewrite L1. destruct s as [|c r].
+  - destruct b; reflexivity.
+  - assert (L2 : ltrim ((c :: r) ++ (if b then [9] else [])) = (c :: r) ++ (if b then [9] else [])).
+    { cbn [app ltrim]. rewrite H1. reflexivity. }
+    rewrite L2, rev_app_distr.
+    assert (L3 : ltrim (rev (if b then [9] else []) ++ rev (c :: r)) = rev (c :: r)).
+    { destruct b; cbn [rev app ltrim]; [change (is_space 9) with true; cbv iota|]; apply ltrim_tight; exact H2. }
+    rewrite L3. apply rev_involutive.
+Qed.
+
+Lemma digits_tight : forall d, all_digits d = true -> tight d.
+Proof.
+  intros d A. assert (K : forall c, In c d -> is_space c = false).
+  { intros c Hc. destruct d as [|x r]; [destruct Hc|]. unfold all_digits in A. rewrite forallb_forall in A.
+    specialize (A c Hc). unfold is_digit in A. apply andb_prop in A. destruct A as [A1 A2]. apply N.leb_le in A1.
+    unfold is_space. repeat (apply orb_false_iff; split); apply N.eqb_neq; lia. }
+  split.
+  - destruct d as [|c r]; [exact I|]. apply K; left; auto.
+  - destruct (rev d) as [|c r] eqn:E; [exact I|]. apply K. apply in_rev. rewrite E. left; auto.
+Qed.
+
+(** a line in the NCBI layout "taxid \t|\t name \t|\t unique name \t|\t class \t|" is read back as (taxid, name, class) *)
+Lemma parse_name_line_ncbi : forall d name uniq class,
+  all_digits d = true -> (digits_val 0 d < int_lim)%Z -> no_bar name -> no_bar uniq -> no_bar class -> tight name -> tight class ->
+  parse_name_line (d ++ [9] ++ 124 :: ([9] ++ name ++ [9]) ++ 124 :: ([9] ++ uniq ++ [9]) ++ 124 :: ([9] ++ class ++ [9]) ++ 124 :: [])
+  = Some (digits_val 0 d, name, class).
+Proof.
+  intros d name uniq class A L Nn Nu Nc Tn Tc. unfold parse_name_line.
+  assert (Nb : forall s, no_bar s -> no_bar ([9] ++ s ++ [9])).
+  { intros s H c Hc. cbn [app] in Hc. destruct Hc as [<-|Hc]; [discriminate|]. apply in_app_or in Hc. destruct Hc as [Hc|[<-|[]]]; [auto|discriminate]. }
+  assert (Nd : no_bar (d ++ [9])).
+  { intros c Hc. apply in_app_or in Hc. destruct Hc as [Hc|[<-|[]]]; [|discriminate].
+    destruct d as [|x r]; [destruct Hc|]. unfold all_digits in A. rewrite forallb_forall in A. specialize (A c Hc).
+    unfold is_digit in A. apply andb_prop in A. destruct A as [_ A2]. apply N.leb_le in A2. lia. }
+  rewrite app_assoc. rewrite (split_bar_app (d ++ [9]) _ [] Nd).
+  rewrite (split_bar_app _ _ [] (Nb name Nn)), (split_bar_app _ _ [] (Nb uniq Nu)), (split_bar_app _ _ [] (Nb class Nc)).
+  cbn [rev app].
+  pose proof (trim_tabs d false true (digits_tight d A)) as T0. cbn [app] in T0. rewrite T0.
+  rewrite (atoi_digits d A L).
+  pose proof (trim_tabs name true true Tn) as T1. pose proof (trim_tabs class true true Tc) as T3. cbn [app] in T1, T3.
+  rewrite T1, T3. reflexivity.
 Qed.
 
 (** ** Clade membership through the LCA: x is in the clade of a iff LCA(x, a) = a *)
